@@ -1,16 +1,16 @@
 """C19 — the command-line tools do what the API does and keep no hidden state.
 
-Three parts, all driving the REAL tools in-process (dcmstack_cli.main / nitool_cli.main) on tiny
-generated DICOM / NIfTI files under $VERIF_WORK:
+Three parts, all driving the REAL tools (dcmstack_cli.main / nitool_cli.main) on generated and real DICOM /
+NIfTI files under $VERIF_WORK:
   names  : lists of natural names -> the file names dcmstack produces (the naming loop of main);
-  state  : sequences of 2-4 dcmstack invocations with different options in ONE process; the API calls
-           the tool makes are recorded (parse_and_group / stack_group / make_key_regex_filter /
-           to_nifti arguments), the module default lists are read before and after every call, every
-           written file is compared with the equivalent API calls and with the same invocation run
-           first in a fresh sub-process;
-  nitool : dump/embed, split, merge (--sort), lookup, inject.
+  state  : sequences of 2-4 dcmstack invocations with different options in ONE process (every case runs in its own
+           interpreter); the API calls the tool makes are recorded, the module-level state is read before and after
+           every call, every written file is compared with the equivalent API calls, with generator ground truth
+           about which keys must be present, and with the same invocation run first in a fresh interpreter;
+  nitool : dump/embed, split, merge (--sort), lookup, inject and histories of them, on compressed and uncompressed
+           files of 3 to 5 dimensions (every case in its own interpreter: a tool killed by a signal is an observation).
 The Coq side (Cli/Corr.v) runs the model on the same options and recorded environment."""
-import os, sys, io, json, re, shutil, hashlib, contextlib, warnings, subprocess, itertools
+import os, sys, io, json, re, shutil, hashlib, contextlib, warnings, subprocess, itertools, gzip, struct, signal
 from fractions import Fraction
 from vlib.coqlit import *
 
@@ -24,11 +24,12 @@ ALLOWED_AXIOMS = []
 TABLES = ["t_cli", "t_filter", "t_group", "t_extract"]
 TRUSTED_BASE = [
     "argparse is not modelled: the model starts from the parsed namespace (`args` record); the harness builds the argv AND the record from the same option dict",
-    "glob, open/readlines, os.path (join/split modelled for POSIX), the filesystem, nibabel load/save, pydicom: the environment answers are recorded from the real run and handed to the model as `inputs`",
-    "the library behind the API calls (parse_and_group, stack_group, DicomStack.to_nifti, NiftiWrapper.split/from_sequence/get_meta, DcmMetaExtension.to_json/from_json) is abstract in the C19 theorems (Section variables); what the tools write is compared with those API calls differentially only",
+    "glob, open/readlines, os.path (join/split modelled for POSIX), the filesystem, nibabel load/save, pydicom: the environment answers are recorded from the real run and handed to the model as `inputs`; the ORDER of a directory listing is chosen by the harness (sorted / reversed / shuffled) for the tool, the API equivalent and the fresh interpreter alike",
+    "the library behind the API calls (parse_and_group, stack_group, DicomStack.to_nifti, NiftiWrapper.split/from_sequence/get_meta, DcmMetaExtension.to_json/from_json) is abstract in the C19 theorems (Section variables); what the tools write is compared with those API calls differentially, plus generator ground truth about marker keys",
     "Section variable `matches` standing for Python re.search (as in C14)",
     "Common/PyNum.v py_int / py_float as models of Python int() / float() for `nitool inject` value conversion",
-    "recording wrappers installed by the harness around dcmstack_cli.glob / parse_and_group / stack_group, dcmstack.make_key_regex_filter, DicomStack.to_nifti, extract.MetaExtractor, Nifti1Image.to_filename (they delegate to the originals)",
+    "recording wrappers installed by the harness around every module-level binding of glob.glob, parse_and_group, stack_group, make_key_regex_filter, MetaExtractor (found by object identity in dcmstack_cli / dcmstack.dcmstack / extract / glob), DicomStack.to_nifti, Nifti1Image.to_filename (they delegate to the originals)",
+    "extensions are read back from the written files by the harness' own NIfTI-1 extension reader (raw bytes -> JSON), not through the library",
 ]
 ASSUMPTIONS = [
     "POSIX paths; natural names are non-empty text without backslash / control characters (pydicom strips trailing blanks of LO values: the harness feeds the model the names the tool really saw)",
@@ -36,8 +37,9 @@ ASSUMPTIONS = [
     "the suffix format is zero padded ('-%03d'): required by the injectivity proof, re-checked from the translated literal",
     "nitool inject: multiplicity-1 classifications store a scalar (convert_values unwraps single values) -- modelled as is; values are ASCII ints / decimals / words; --sort keys are ints",
     "nitool embed without --force-overwrite on a file that has an extension asks on stdin: modelled by the `confirm` input, not exercised",
-    "C19_paths_global: the output extension contains no '/', and without --dest-dir the source directories are pairwise different "
-    "directories (generated: d0, d1)",
+    "C19_paths_global: the output extension contains no '/', and without --dest-dir the source directories are pairwise different directories (generated: d0, d1)",
+    "only what the property text states is judged: exit statuses are compared as zero / non-zero (an exception counts as a refusal), printed lists as lists of patterns (headings ignored), JSON as parsed values; module-level state by its configuration and by the behaviour of the plain API afterwards, not by object identity",
+    "real input: the 2D_16Echo_qT2 files of the repository's test data (looked up under $DCMSTACK_REPO/test/data, else under the default repository location as DATA only)",
 ]
 
 # ------------------------------------------------------------------------------------------------ helpers
@@ -45,18 +47,27 @@ ASSUMPTIONS = [
 _CNT = itertools.count()
 _PRISTINE = None
 _PRISTINE_OBJ = {}
+_WORKER_LOG = []          # kinds of the cases this interpreter ran before the current one (recorded in every observation)
+SRC_SUFFIXES = ('.dcm', '.ima', '.txt')
+GROUP_KEYS = ['SeriesInstanceUID', 'SeriesNumber', 'ProtocolName', 'ImageOrientationPatient']     # documented default grouping
 ERRMAP = {'InvalidStackError': 'EInvalidStack', 'IncongruentImageError': 'EIncongruent', 'ImageCollisionError': 'ECollision',
           'NonImageDataSetError': 'ENonImage', 'TypeError': 'EType', 'KeyError': 'EKey', 'ValueError': 'EValue',
           'IndexError': 'EIndex', 'AttributeError': 'EAttr', 'MissingExtensionError': 'EMissingExt',
           'InvalidExtensionError': 'EInvalidExt'}
+HERE = os.path.dirname(os.path.dirname(os.path.abspath(__file__)))
 
 
 def _err(e):
-    return ERRMAP.get(type(e).__name__, 'ECrash')
+    for cls in type(e).__mro__:
+        if cls.__name__ in ERRMAP:
+            return ERRMAP[cls.__name__]
+    return 'ECrash'
 
 
 def _scratch():
-    base = os.environ.get('VERIF_WORK') or os.path.join(os.path.dirname(os.path.dirname(os.path.abspath(__file__))), 'work', 'C19')
+    base = os.environ.get('VERIF_WORK')
+    if not base:       # manual use outside the driver: never the driver's live work directory
+        base = os.path.join(HERE, 'work', 'c19_manual_%d' % os.getpid())
     d = os.path.join(base, 'c19_%d_%d' % (os.getpid(), next(_CNT)))
     shutil.rmtree(d, ignore_errors=True)
     os.makedirs(d)
@@ -64,24 +75,26 @@ def _scratch():
 
 
 def _impl():
-    """Import the implementation lazily; remember the module default lists as they were at import."""
+    """Import the implementation lazily; remember the module-level state as it was at import."""
     global _PRISTINE
     import dcmstack
     import dcmstack.dcmstack as core
     from dcmstack import dcmstack_cli, nitool_cli, extract, dcmmeta
     if _PRISTINE is None:
         _PRISTINE = (list(core.default_key_excl_res), list(core.default_key_incl_res))
-        _PRISTINE_OBJ.update(dx=extract.default_extractor, flt=core.default_meta_filter,
-                             dx_rules=extract.default_extractor.ignore_rules, dx_trans=extract.default_extractor.translators,
-                             dx_conv=extract.default_extractor.conversions, group_keys=core.default_group_keys,
-                             rules=extract.default_ignore_rules, trans=extract.default_translators)
+        dx = extract.default_extractor
+        _PRISTINE_OBJ.update(dx=dx, flt=core.default_meta_filter, dx_rules=dx.ignore_rules, dx_trans=dx.translators,
+                             dx_conv=dx.conversions, dx_warn=dx.warn_on_trans_except, group_keys=core.default_group_keys,
+                             close_keys=core.default_close_keys, rules=extract.default_ignore_rules, trans=extract.default_translators,
+                             cli_group_keys=getattr(dcmstack_cli, 'default_group_keys', None),
+                             sort_guesses=list(core.DicomStack.sort_guesses))
         _PRISTINE_OBJ['hidden'] = _hidden_state()
     return core, dcmstack_cli, nitool_cli, extract, dcmmeta
 
 
 def _hidden_state():
-    """Everything module-level the tools could leave behind: the regex lists, the shared default extractor
-    (its configuration and identity), the default filter, the default group keys / rule / translator tuples."""
+    """The CONFIGURATION of everything module-level the tools could leave behind (no object identities: whether a
+    replaced object matters is judged by the behaviour of the plain API afterwards, see _api_probe)."""
     import dcmstack.dcmstack as core
     from dcmstack import extract
     dx = extract.default_extractor
@@ -92,24 +105,33 @@ def _hidden_state():
     def trans(t):
         return [[x.name, int(x.tag.group), int(x.tag.elem)] for x in (t or [])]
     return {'excl': list(core.default_key_excl_res), 'incl': list(core.default_key_incl_res),
-            'dx': {'kind': 'meta', 'ignore': rules(dx.ignore_rules), 'trans': trans(dx.translators)},
-            'dx_same_object': dx is _PRISTINE_OBJ.get('dx', dx), 'dx_conversions_same': dx.conversions is _PRISTINE_OBJ.get('dx_conv', dx.conversions),
-            'filter_same_object': core.default_meta_filter is _PRISTINE_OBJ.get('flt', core.default_meta_filter),
-            'group_keys': list(core.default_group_keys), 'rules': rules(extract.default_ignore_rules),
-            'translators': trans(extract.default_translators)}
+            'dx': {'kind': 'meta', 'ignore': rules(getattr(dx, 'ignore_rules', None)), 'trans': trans(getattr(dx, 'translators', None))},
+            'dx_conversions': sorted(getattr(dx, 'conversions', {}) or {}),
+            'group_keys': list(core.default_group_keys), 'close_keys': list(core.default_close_keys),
+            'rules': rules(extract.default_ignore_rules), 'translators': trans(extract.default_translators),
+            'sort_guesses': list(core.DicomStack.sort_guesses)}
 
 
-def _case_start():
-    """Every case starts from the module state at import (as if it ran in its own process), so that a case
-    is self-contained and replayable; nothing is reset BETWEEN the invocations of a case."""
+def _case_start(kind=None):
+    """Every case starts from the module state at import, restoring EVERYTHING _hidden_state looks at (state and nitool
+    cases run in their own interpreter anyway); nothing is reset BETWEEN the invocations of a case.  Returns the kinds of
+    the cases this interpreter ran before (so that a leak can be attributed)."""
     core, cli, nit, extract, dcmmeta = _impl()
+    P = _PRISTINE_OBJ
     core.default_key_excl_res[:] = _PRISTINE[0]
     core.default_key_incl_res[:] = _PRISTINE[1]
-    extract.default_extractor = _PRISTINE_OBJ['dx']
-    extract.default_extractor.ignore_rules = _PRISTINE_OBJ['dx_rules']
-    extract.default_extractor.translators = _PRISTINE_OBJ['dx_trans']
-    extract.default_extractor.conversions = _PRISTINE_OBJ['dx_conv']
-    core.default_meta_filter = _PRISTINE_OBJ['flt']
+    extract.default_extractor = P['dx']
+    P['dx'].ignore_rules, P['dx'].translators, P['dx'].conversions = P['dx_rules'], P['dx_trans'], P['dx_conv']
+    P['dx'].warn_on_trans_except = P['dx_warn']
+    core.default_meta_filter = P['flt']
+    core.default_group_keys, core.default_close_keys = P['group_keys'], P['close_keys']
+    extract.default_ignore_rules, extract.default_translators = P['rules'], P['trans']
+    if P['cli_group_keys'] is not None:
+        cli.default_group_keys = P['cli_group_keys']
+    core.DicomStack.sort_guesses[:] = P['sort_guesses']
+    hist = list(_WORKER_LOG)
+    _WORKER_LOG.append(kind)
+    return hist
 
 
 @contextlib.contextmanager
@@ -120,10 +142,126 @@ def _quiet():
         yield out, err
 
 
+def _data_dir():
+    for root in (os.environ.get('DCMSTACK_REPO', '/repo'), '/repo'):
+        d = os.path.join(root, 'test', 'data', 'dcmstack', '2D_16Echo_qT2')
+        if os.path.isdir(d):
+            return d
+    return None
+
+
+# ------------------------------------------------------------------------------------------------ reading files back
+
+def _raw_ext(path):
+    """The DcmMeta extension of a NIfTI-1 file as parsed JSON, read from the raw bytes (header 348 bytes, extension flag,
+    then (esize, ecode, payload) records up to vox_offset) -- independent of dcmstack and of nibabel's extension classes.
+    None when there is none."""
+    raw = open(path, 'rb').read()
+    if raw[:2] == b'\x1f\x8b':
+        raw = gzip.decompress(raw)
+    if len(raw) < 352:
+        return None
+    end = '<' if struct.unpack('<i', raw[:4])[0] == 348 else '>'
+    vox_offset = int(struct.unpack(end + 'f', raw[108:112])[0])
+    if raw[348] == 0:
+        return None
+    pos = 352
+    while pos + 8 <= min(vox_offset, len(raw)):
+        esize, ecode = struct.unpack(end + '2i', raw[pos:pos + 8])
+        if esize < 8:
+            break
+        payload = raw[pos + 8:pos + esize].rstrip(b'\x00')
+        try:
+            j = json.loads(payload.decode('utf-8'))
+            if isinstance(j, dict) and 'dcmmeta_version' in j:
+                return j
+        except (ValueError, UnicodeDecodeError):
+            pass
+        pos += esize
+    return None
+
+
+def _mem_ext(img):
+    """The DcmMeta extension of an in-memory image (an API result) as parsed JSON."""
+    for e in img.header.extensions:
+        c = e.get_content()
+        try:
+            j = json.loads(c.decode('utf-8') if isinstance(c, bytes) else c) if isinstance(c, (bytes, str)) else json.loads(json.dumps(c))
+        except (ValueError, TypeError):
+            continue
+        if isinstance(j, dict) and 'dcmmeta_version' in j:
+            return j
+    return None
+
+
+def _img_summary(img, ext):
+    import numpy as np
+    data = np.asanyarray(img.dataobj)
+    hdr = img.header
+    try:
+        st = [float(x).hex() for x in hdr.get_slice_times()]
+    except Exception:
+        st = None
+    return {'shape': [int(x) for x in data.shape], 'dtype': str(data.dtype),
+            'data': hashlib.sha1(np.ascontiguousarray(data).tobytes()).hexdigest(),
+            'affine': [float(x).hex() for x in np.asarray(img.affine, dtype=np.float32).ravel()],     # what a NIfTI-1 header can hold
+            'pixdim': [float(x).hex() for x in hdr['pixdim']],
+            'dim_info': [None if x is None else int(x) for x in hdr.get_dim_info()],
+            'xyzt': list(hdr.get_xyzt_units()), 'slice_times': st, 'ext': ext}
+
+
+def _file_summary(path):
+    import nibabel as nb
+    if path.endswith('.json'):
+        txt = open(path).read()
+        try:
+            return {'json': json.loads(txt)}
+        except ValueError:
+            return {'json': {'__not_json__': txt[:200]}}
+    try:
+        return _img_summary(nb.load(path, mmap=False), _raw_ext(path))
+    except Exception as e:          # a truncated / unreadable output is an observation, not a harness crash
+        return {'unreadable': type(e).__name__, 'size': os.path.getsize(path)}
+
+
+def _mem_summary(img):
+    return _img_summary(img, _mem_ext(img))
+
+
+def _ext_keys(j):
+    """all meta keys of a parsed extension, over every classification"""
+    out = set()
+    for base in ('global', 'time', 'vector'):
+        for sub, d in (j.get(base) or {}).items():
+            if isinstance(d, dict):
+                out.update(d.keys())
+    return out
+
+
+def _listing(dirs):
+    out = {}
+    for d in dirs:
+        if os.path.isdir(d):
+            for fn in sorted(os.listdir(d)):
+                p = os.path.join(d, fn)
+                if os.path.isfile(p) and not fn.lower().endswith(SRC_SUFFIXES):
+                    out[p] = None
+    return out
+
+
+def _summarise(dirs):
+    return {p: _file_summary(p) for p in sorted(_listing(dirs))}
+
+
+def _clean(dirs):
+    for p in _listing(dirs):
+        os.remove(p)
+
+
+# ------------------------------------------------------------------------------------------------ generated / real input
+
 def _build_csa2(tags):
-    """hand-built Siemens CSA2 ('SV10') header (same layout as props/c16.py build_csa2):
-    tags = [{name, vr, items: [str]}]"""
-    import struct
+    """hand-built Siemens CSA2 ('SV10') header (same layout as props/c16.py build_csa2): tags = [{name, vr, items: [str]}]"""
     out = b"SV10" + b"\x04\x03\x02\x01" + struct.pack("<2I", len(tags), 77)
     for t in tags:
         items = [x.encode("latin-1") + b"\x00" for x in t["items"]]
@@ -134,14 +272,13 @@ def _build_csa2(tags):
 
 
 def _add_private(ds, k):
-    """Untranslated private elements (a creator pydicom knows: key 'B_value'; one it does not: key
-    'PrivateTagData', excluded by the default regexes) and the two Siemens CSA headers the default
-    translators read -- so that --extract-private and --disable-translator change the extracted keys."""
+    """Untranslated private elements (a creator pydicom knows: key 'B_value'; one it does not: key 'PrivateTagData',
+    excluded by the default regexes), ASCII overlay / palette payloads only the ignore rules keep out, and the two Siemens
+    CSA headers the default translators read -- so that --extract-private and --disable-translator change the keys."""
     ds.add_new((0x0019, 0x0010), 'LO', 'SIEMENS MR HEADER')
     ds.add_new((0x0019, 0x100c), 'IS', str(1000 + 50 * (k % 3)))
     ds.add_new((0x0021, 0x0010), 'LO', 'ACME')
     ds.add_new((0x0021, 0x1001), 'DS', '2.5')
-    # elements only the ignore rules keep out of the meta data (ASCII payloads would otherwise be extracted as text)
     ds.add_new((0x6000, 0x3000), 'OW', b'OVLY')
     ds.add_new((0x0028, 0x1201), 'OW', b'LUTR')
     ds.add_new((0x0029, 0x0010), 'LO', 'SIEMENS CSA HEADER')
@@ -151,18 +288,27 @@ def _add_private(ds, k):
                                                       {'name': 'MrProtocolVersion', 'vr': 'IS', 'items': ['21']}]))
 
 
-def _write_series(dirpath, start, series):
-    """series: {'uid': int, 'num': int|None, 'proto': str|None, 'descr': str|None, 'S':, 'T':, 'tags': {..},
-                'bad': bool (last file has another pixel spacing -> IncongruentImageError), 'gap': bool (drop a middle slice)}"""
+def _grid(S, T, V, rows=2, cols=2):
     import random
     from props import stacklib
-    S, T = series.get('S', 1), series.get('T', 1)
-    files = stacklib.make_grid(random.Random(0), S, T, 1, rows=2, cols=2,
-                               tagrules={'EchoTime': 't', 'AcquisitionNumber': 't'} if T > 1 else None)
+    rules = {}
+    if T > 1:
+        rules.update({'EchoTime': 't', 'AcquisitionNumber': 't'})
+    if V > 1:
+        rules['FlipAngle'] = 'v'
+    return stacklib.make_grid(random.Random(0), S, T, V, rows=rows, cols=cols, tagrules=rules or None)
+
+
+def _write_series(dirpath, start, series, suffix='.dcm'):
+    """series: {'uid', 'num', 'proto', 'descr', 'S', 'T', 'V', 'tags', 'priv',
+                'bad': last file has another pixel spacing (IncongruentImageError), 'gap': a middle slice is missing}"""
+    from props import stacklib
+    S, T, V = series.get('S', 1), series.get('T', 1), series.get('V', 1)
+    files = _grid(S, T, V)
     if series.get('gap') and S >= 3:
         files = [f for f in files if f['cell'][0] != 1]
     if series.get('bad') and len(files) >= 2:
-        files[-1] = dict(files[-1], ps=[2.0, 2.0])        # incongruent with the rest of the series
+        files[-1] = dict(files[-1], ps=[2.0, 2.0])
     n = start
     for f in files:
         f = dict(f)
@@ -176,6 +322,8 @@ def _write_series(dirpath, start, series):
         if T == 1:
             tags['EchoTime'] = 3.0
             tags['AcquisitionNumber'] = 4
+        if V == 1:
+            tags['FlipAngle'] = 30.0
         for k, a in (('num', 'SeriesNumber'), ('proto', 'ProtocolName'), ('descr', 'SeriesDescription')):
             if series.get(k) is not None:
                 tags[a] = series[k]
@@ -187,8 +335,22 @@ def _write_series(dirpath, start, series):
                 delattr(ds, a)
         if series.get('priv', True):
             _add_private(ds, f['cell'][1])
-        ds.save_as(os.path.join(dirpath, '%04d.dcm' % n), enforce_file_format=True)
+        ds.save_as(os.path.join(dirpath, '%04d%s' % (n, suffix)), enforce_file_format=True)
         n += 1
+    return n
+
+
+def _copy_real(dirpath, complete=True):
+    """the real 2 slices x 3 echoes of the repository's test data (complete=False adds the stray third position of TE 20:
+    the slice spacing is then inconsistent and the conversion must be refused)"""
+    src = _data_dir()
+    if src is None:
+        return 0
+    n = 0
+    for fn in sorted(os.listdir(src)):
+        if fn.endswith('.dcm') and (not complete or 'SlcPos_-2.2' not in fn):
+            shutil.copy(os.path.join(src, fn), os.path.join(dirpath, fn))
+            n += 1
     return n
 
 
@@ -203,53 +365,6 @@ def _mjson(v):
     if isinstance(v, str):
         return {'t': 'str', 'v': str(v)}
     return {'t': 'other', 'r': repr(v)}
-
-
-def _img_summary(img, dcmmeta):
-    import numpy as np
-    data = np.asanyarray(img.dataobj)
-    hdr = img.header
-    try:
-        ext = dcmmeta.NiftiWrapper(img).meta_ext.to_json()
-    except dcmmeta.MissingExtensionError:
-        ext = None
-    try:
-        st = [float(x).hex() for x in hdr.get_slice_times()]
-    except Exception:
-        st = None
-    return {'shape': [int(x) for x in data.shape], 'dtype': str(data.dtype),
-            'data': hashlib.sha1(np.ascontiguousarray(data).tobytes()).hexdigest(),
-            'affine': [float(x).hex() for x in np.asarray(img.affine).ravel()],
-            'pixdim': [float(x).hex() for x in hdr['pixdim']],
-            'dim_info': [None if x is None else int(x) for x in hdr.get_dim_info()],
-            'xyzt': list(hdr.get_xyzt_units()), 'slice_times': st, 'ext': ext}
-
-
-def _file_summary(path, dcmmeta):
-    import nibabel as nb
-    if path.endswith('.json'):
-        return {'json': open(path).read()}
-    return _img_summary(nb.load(path), dcmmeta)
-
-
-def _listing(dirs):
-    out = {}
-    for d in dirs:
-        if os.path.isdir(d):
-            for fn in sorted(os.listdir(d)):
-                p = os.path.join(d, fn)
-                if os.path.isfile(p) and not fn.endswith('.dcm') and not fn.endswith('.txt'):
-                    out[p] = None
-    return out
-
-
-def _summarise(dirs, dcmmeta):
-    return {p: _file_summary(p, dcmmeta) for p in sorted(_listing(dirs))}
-
-
-def _clean(dirs):
-    for p in _listing(dirs):
-        os.remove(p)
 
 
 # ------------------------------------------------------------------------------------------------ options
@@ -300,6 +415,73 @@ def _coq_args(o):
         cbool(bool(o.get('verbose'))), cbool(bool(o.get('strict'))), cbool(bool(o.get('version'))))
 
 
+def _disabled_tags(s):
+    """ground truth for --disable-translator: 'all' | list of (group, elem) | None = malformed (usage error)"""
+    if not s:
+        return []
+    if s.lower() == 'all':
+        return 'all'
+    out = []
+    for tok in s.split(','):
+        ge = tok.split('_')
+        if len(ge) != 2:
+            return None
+        try:
+            g, e = int(ge[0].strip(), 16), int(ge[1].strip(), 16)
+        except ValueError:
+            return None
+        if not (0 <= g <= 0xffff and 0 <= e <= 0xffff):
+            return None
+        out.append((g, e))
+    return out
+
+
+# ------------------------------------------------------------------------------------------------ environment control
+
+def _all_bindings(orig, modules):
+    """every module-level name in `modules` bound to the object `orig`"""
+    out = []
+    for m in modules:
+        for name, val in list(vars(m).items()):
+            if val is orig:
+                out.append((m, name))
+    return out
+
+
+def _ordered(mode, paths):
+    """the order in which a directory listing reaches the tools (chosen by the harness, equal for the tool, the API
+    equivalent and the fresh interpreter)"""
+    p = sorted(paths)
+    if mode == 'reversed':
+        return p[::-1]
+    if mode and mode.startswith('shuffle'):
+        import random
+        random.Random(int(mode[7:] or 0)).shuffle(p)
+    return p
+
+
+@contextlib.contextmanager
+def _glob_order(mode, record=None):
+    """glob.glob (under every name the implementation bound it to) answers in the harness' order; calls are recorded"""
+    import glob as globmod
+    core, cli, nit, extract, dcmmeta = _impl()
+    orig = globmod.glob
+
+    def g(pat, *a, **k):
+        res = _ordered(mode, orig(pat, *a, **k))
+        if record is not None:
+            record.append([pat, list(res)])
+        return res
+    sites = _all_bindings(orig, [globmod, cli, core])
+    for m, name in sites:
+        setattr(m, name, g)
+    try:
+        yield orig
+    finally:
+        for m, name in sites:
+            setattr(m, name, orig)
+
+
 # ------------------------------------------------------------------------------------------------ recorded run
 
 def _ordering_json(o):
@@ -308,51 +490,51 @@ def _ordering_json(o):
     return {'key': o.key, 'abs': None if o.abs_ordering is None else [str(x) for x in o.abs_ordering], 'as_str': bool(o.abs_as_str)}
 
 
-def _run_recorded(opts):
-    """Run dcmstack_cli.main(argv(opts)) in this process with recording wrappers around every API
-    entry point the tool uses.  Returns the observation dict (JSON serialisable)."""
+def _run_recorded(opts, glob_mode=None):
+    """Run dcmstack_cli.main(argv(opts)) in this process with recording wrappers around every API entry point the tool
+    uses (whatever name the tool's module bound them to).  Returns the observation dict (JSON serialisable)."""
     import nibabel as nb
     core, cli, nit, extract, dcmmeta = _impl()
+    mods = [cli, core, extract]
     rec = {'globs': [], 'dirs': [], 'filters': {}, 'extractors': {}, 'writes': [], 'stack_err': [], 'nifti_err': []}
-    state = {'cur': None, 'stacks': {}}
-    orig = {'glob': cli.glob, 'pg': cli.parse_and_group, 'sg': cli.stack_group, 'mf': core.make_key_regex_filter,
-            'tn': core.DicomStack.to_nifti, 'me': extract.MetaExtractor}
+    state = {'cur': None, 'groups': {}, 'stacks': {}, 'niis': {}, 'keep': []}
+    o_pg, o_sg, o_mf, o_me = core.parse_and_group, core.stack_group, core.make_key_regex_filter, extract.MetaExtractor
+    o_tn = core.DicomStack.to_nifti
     had_tf = 'to_filename' in nb.Nifti1Image.__dict__
     orig_tf = nb.Nifti1Image.to_filename
 
-    def r_glob(pat):
-        res = orig['glob'](pat)
-        rec['globs'].append([pat, list(res)])
-        return res
-
     def r_me(*a, **k):
-        x = orig['me'](*a, **k)
+        x = o_me(*a, **k)
         ign = a[0] if len(a) > 0 else k.get('ignore_rules')
         tr = a[1] if len(a) > 1 else k.get('translators')
-        rec['extractors'][id(x)] = {'kind': 'meta', 'ignore': [f.__name__ for f in (ign or [])],
-                                    'trans': [[t.name, int(t.tag.group), int(t.tag.elem)] for t in (tr or [])]}
-        state.setdefault('keep', []).append(x)
+        rec['extractors'][id(x)] = {'kind': 'meta', 'ignore': [getattr(f, '__name__', repr(f)) for f in (ign if ign is not None else extract.default_ignore_rules)],
+                                    'trans': [[t.name, int(t.tag.group), int(t.tag.elem)] for t in (tr if tr is not None else extract.default_translators)]}
+        state['keep'].append(x)
         return x
 
     def r_mf(excl, incl=None):
-        f = orig['mf'](excl, incl)
+        f = o_mf(excl, incl)
         rec['filters'][id(f)] = {'excl': list(excl), 'incl': None if incl is None else list(incl)}
-        state.setdefault('keep', []).append(f)
+        state['keep'].append(f)
         return f
 
     def r_pg(src_paths, group_by=None, extractor=None, force=False, warn_on_except=False, *more, **kw):
-        if more or kw:
-            raise RuntimeError('harness: unexpected arguments to parse_and_group: %r %r' % (more, kw))
+        if group_by is None:
+            group_by = core.default_group_keys
         if extractor is extract.minimal_extractor:
             xd = {'kind': 'minimal'}
+        elif extractor is extract.default_extractor or extractor is None:
+            dx = extract.default_extractor
+            xd = {'kind': 'meta', 'ignore': [getattr(f, '__name__', repr(f)) for f in dx.ignore_rules],
+                  'trans': [[t.name, int(t.tag.group), int(t.tag.elem)] for t in dx.translators]}
         else:
             xd = rec['extractors'].get(id(extractor), {'kind': 'unknown:' + repr(extractor)})
         d = {'paths': list(src_paths), 'group_by': [str(x) for x in group_by], 'extractor': xd, 'force': bool(force),
-             'warn': bool(warn_on_except), 'groups': None, 'files': []}
+             'warn': bool(warn_on_except), 'groups': None, 'files': [], 'extra_args': bool(more or kw)}
         rec['dirs'].append(d)
         state['cur'] = d
         try:
-            res = orig['pg'](src_paths, group_by, extractor, force, warn_on_except)
+            res = o_pg(src_paths, group_by, extractor, force, warn_on_except, *more, **kw)
         except Exception as e:
             d['groups'] = {'err': _err(e), 'cls': type(e).__name__}
             raise
@@ -370,42 +552,47 @@ def _run_recorded(opts):
             else:
                 g['custom'] = {'err': 'ECrash'}
             gl.append(g)
-            state['stacks'][id(group)] = gi
+            state['groups'][id(group)] = (d, gi)
         d['groups'] = gl
-        state.setdefault('keep', []).append(res)
+        state['keep'].append(res)
         return res
 
     def r_sg(group, warn_on_except=False, **stack_args):
-        d = state['cur']
-        gi = state['stacks'].get(id(group), -1)
+        d, gi = state['groups'].get(id(group), (state['cur'], -1))
         extra = sorted(set(stack_args) - {'time_order', 'vector_order', 'meta_filter'})
         f = {'group': gi, 'warn': bool(warn_on_except), 'time': _ordering_json(stack_args.get('time_order')),
              'vec': _ordering_json(stack_args.get('vector_order')),
              'filter': rec['filters'].get(id(stack_args.get('meta_filter'))), 'extra_kw': extra, 'nifti': None, 'path': None}
         try:
-            st = orig['sg'](group, warn_on_except, **stack_args)
+            st = o_sg(group, warn_on_except, **stack_args)
         except Exception as e:
-            rec['stack_err'].append([len(rec['dirs']) - 1, gi, _err(e), type(e).__name__])
+            rec['stack_err'].append([rec['dirs'].index(d) if d in rec['dirs'] else -1, gi, _err(e), type(e).__name__])
             raise
-        d['files'].append(f)
-        state['curfile'] = f
+        if d is not None:
+            d['files'].append(f)
+        state['stacks'][id(st)] = (d, f)
+        state['keep'].append(st)
         return st
 
     def r_tn(self, voxel_order='LAS', embed_meta=False):
-        f = state.get('curfile')
-        if f is not None:
+        d, f = state['stacks'].get(id(self), (None, None))
+        if f is not None and f['path'] is None:
             f['nifti'] = {'vo': voxel_order, 'embed': bool(embed_meta)}
         try:
-            return orig['tn'](self, voxel_order, embed_meta)
+            nii = o_tn(self, voxel_order, embed_meta)
         except Exception as e:
             if f is not None:
-                rec['nifti_err'].append([len(rec['dirs']) - 1, f['group'], _err(e), type(e).__name__])
-                state['cur']['files'].remove(f)
-                state['curfile'] = None
+                rec['nifti_err'].append([rec['dirs'].index(d), f['group'], _err(e), type(e).__name__])
+                if f in d['files']:
+                    d['files'].remove(f)
             raise
+        if f is not None:
+            state['niis'][id(nii)] = f
+            state['keep'].append(nii)
+        return nii
 
     def r_tf(self, path, *a, **k):
-        f = state.get('curfile')
+        f = state['niis'].get(id(self))
         if f is not None:
             f['path'] = path
         rec['writes'].append(path)
@@ -414,11 +601,15 @@ def _run_recorded(opts):
     before = [list(core.default_key_excl_res), list(core.default_key_incl_res)]
     hidden_before = _hidden_state()
     status, raised = None, None
-    cli.glob, cli.parse_and_group, cli.stack_group = r_glob, r_pg, r_sg
-    core.make_key_regex_filter, core.DicomStack.to_nifti, extract.MetaExtractor = r_mf, r_tn, r_me
+    sites = []
+    for orig, repl in ((o_pg, r_pg), (o_sg, r_sg), (o_mf, r_mf), (o_me, r_me)):
+        for m, name in _all_bindings(orig, mods):
+            sites.append((m, name, orig))
+            setattr(m, name, repl)
+    core.DicomStack.to_nifti = r_tn
     nb.Nifti1Image.to_filename = r_tf
     try:
-        with _quiet() as (so, se):
+        with _glob_order(glob_mode, rec['globs']), _quiet() as (so, se):
             try:
                 status = cli.main(_argv(opts))
             except SystemExit as e:
@@ -426,45 +617,58 @@ def _run_recorded(opts):
             except Exception as e:
                 raised = {'err': _err(e), 'cls': type(e).__name__, 'msg': str(e)[:200]}
     finally:
-        cli.glob, cli.parse_and_group, cli.stack_group = orig['glob'], orig['pg'], orig['sg']
-        core.make_key_regex_filter, core.DicomStack.to_nifti, extract.MetaExtractor = orig['mf'], orig['tn'], orig['me']
+        for m, name, orig in sites:
+            setattr(m, name, orig)
+        core.DicomStack.to_nifti = o_tn
         if had_tf:
             nb.Nifti1Image.to_filename = orig_tf
         else:
             del nb.Nifti1Image.to_filename
     after = [list(core.default_key_excl_res), list(core.default_key_incl_res)]
     hidden_after = _hidden_state()
-    # files of a directory whose stack was built but never written (exception between stack_group and to_filename)
     for d in rec['dirs']:
-        d['files'] = [f for f in d['files'] if f['path'] is not None]
-    for d, (pat, res) in zip(rec['dirs'], rec['globs']):
-        d['glob'] = pat
-    return {'before': before, 'after': after, 'hidden_before': hidden_before, 'hidden_after': hidden_after, 'status': status, 'raised': raised, 'stdout': so.getvalue(),
-            'dirs': rec['dirs'], 'n_globs': len(rec['globs']), 'stack_err': rec['stack_err'], 'nifti_err': rec['nifti_err'],
-            'writes': rec['writes']}
+        d['files'] = [f for f in d['files'] if f['path'] is not None]      # stacks that were never written
+    for i, d in enumerate(rec['dirs']):
+        if len(rec['globs']) == len(rec['dirs']):
+            d['glob'] = rec['globs'][i][0]           # one listing per directory, in order
+        else:
+            hit = [pat for pat, res in rec['globs'] if list(res) == d['paths']]
+            d['glob'] = hit[0] if hit else None
+    return {'before': before, 'after': after, 'hidden_before': hidden_before, 'hidden_after': hidden_after, 'status': status, 'raised': raised,
+            'stdout': so.getvalue(), 'dirs': rec['dirs'], 'n_globs': len(rec['globs']), 'stack_err': rec['stack_err'],
+            'nifti_err': rec['nifti_err'], 'writes': rec['writes']}
 
 
-def _api_equivalent(opts, pristine):
-    """What the API produces for the same request: parse_and_stack + to_nifti with the filter built from the
-    PRISTINE defaults plus the -e / -i options (parse_and_group, stack_group, to_nifti).  Returns {path-less list per dir: [summary...]} or the error."""
-    from glob import glob
+# ------------------------------------------------------------------------------------------------ the equivalent API calls
+
+def _truth_extractor(opts):
+    """The extractor the options ask for, stated from the documented options and the library's NAMED rule / translator
+    objects (not from the tool's helpers, not from the default tuples).  'usage' = the option value is malformed."""
     core, cli, nit, extract, dcmmeta = _impl()
-    gen_meta = bool(opts.get('embed_meta') or opts.get('dump_meta'))
-    if gen_meta:
-        ign = extract.default_ignore_rules
-        tr = extract.default_translators
-        dt = opts.get('disable_translator')
-        if dt:
-            if dt.lower() == 'all':
-                tr = ()
-            else:
-                tags = cli.parse_tags(dt)
-                tr = [t for t in tr if t.tag not in tags]
-        if opts.get('extract_private'):
-            ign = (extract.ignore_pixel_data, extract.ignore_overlay_data, extract.ignore_color_lut_data)
-        extractor = extract.MetaExtractor(ign, tr)
+    if not (opts.get('embed_meta') or opts.get('dump_meta')):
+        return extract.minimal_extractor
+    trans = [extract.csa_image_trans, extract.csa_series_trans]
+    dis = _disabled_tags(opts.get('disable_translator'))
+    if dis is None:
+        return 'usage'
+    if dis == 'all':
+        trans = []
     else:
-        extractor = extract.minimal_extractor
+        trans = [t for t in trans if (int(t.tag.group), int(t.tag.elem)) not in dis]
+    rules = [extract.ignore_pixel_data, extract.ignore_overlay_data, extract.ignore_color_lut_data]
+    if not opts.get('extract_private'):
+        rules = [extract.ignore_private] + rules
+    return extract.MetaExtractor(tuple(rules), tuple(trans))
+
+
+def _api_equivalent(opts, pristine, glob_mode=None):
+    """What the API produces for the same request: parse_and_group + stack_group + to_nifti per group, with the filter built
+    from the PRISTINE defaults plus the -e / -i options.  Returns one {'files': [summary...], 'raised': cls|None} per directory."""
+    import glob as globmod
+    core, cli, nit, extract, dcmmeta = _impl()
+    extractor = _truth_extractor(opts)
+    if extractor == 'usage':
+        return 'usage'
     flt = core.make_key_regex_filter(pristine[0] + list(opts.get('exclude_regex') or []),
                                      pristine[1] + list(opts.get('include_regex') or []))
 
@@ -474,27 +678,28 @@ def _api_equivalent(opts, pristine):
         if fn:
             return core.DicomOrdering(var, [l.strip() for l in open(fn).readlines()], True)
         return core.DicomOrdering(var)
-    t_ord = order(opts.get('time_var'), opts.get('time_order'))
-    v_ord = order(opts.get('vector_var'), opts.get('vector_order'))
-    group_by = opts['group_by'].split(',') if opts.get('group_by') is not None else core.default_group_keys
-    vo = opts['voxel_order'] if opts.get('voxel_order') is not None else 'LAS'
     out = []
+    try:
+        t_ord = order(opts.get('time_var'), opts.get('time_order'))
+        v_ord = order(opts.get('vector_var'), opts.get('vector_order'))
+    except Exception as e:
+        return [{'files': [], 'raised': type(e).__name__, 'before_dirs': True}]
+    group_by = opts['group_by'].split(',') if opts.get('group_by') is not None else tuple(GROUP_KEYS)
+    vo = opts['voxel_order'] if opts.get('voxel_order') is not None else 'LAS'
     for d in opts.get('src_dirs') or []:
         ext = opts['file_ext'] if opts.get('file_ext') is not None else '.dcm'
-        paths = glob(os.path.join(d, '*') + (ext or ''))
+        paths = _ordered(glob_mode, globmod.glob(os.path.join(d, '*') + (ext or '')))
         res = []
         try:
             with _quiet():
-                # parse_and_stack = parse_and_group + stack_group per group; done group by group, as the tool does, so that
-                # an exception on a later group leaves the earlier results in place
                 groups = core.parse_and_group(paths, group_by, extractor, bool(opts.get('force_read')), not opts.get('strict'))
                 for key, group in groups.items():
                     st = core.stack_group(group, warn_on_except=not opts.get('strict'), time_order=t_ord, vector_order=v_ord,
                                           meta_filter=flt)
                     nii = st.to_nifti(vo, bool(opts.get('embed_meta')))
-                    s = _img_summary(nii, dcmmeta)
+                    s = _mem_summary(nii)
                     if opts.get('dump_meta'):
-                        s['dump'] = dcmmeta.NiftiWrapper(st.to_nifti(vo, True)).meta_ext.to_json()
+                        s['dump'] = _mem_ext(st.to_nifti(vo, True))
                     res.append(s)
         except Exception as e:
             out.append({'files': res, 'raised': type(e).__name__})
@@ -503,26 +708,52 @@ def _api_equivalent(opts, pristine):
     return out
 
 
+MARKERS = {'B_value': 'private', 'PrivateCreator_0X19_0X10': 'private', 'PrivateTagData': 'private',
+           'CsaImage.ImaCoilString': (0x29, 0x1010), 'CsaSeries.MrProtocolVersion': (0x29, 0x1020), 'CsaSeries.UsedPatientWeight': (0x29, 0x1020),
+           'OverlayData': 'never', 'RedPaletteColorLookupTableData': 'never',
+           'PatientName': 'always', 'StudyDate': 'always', 'RepetitionTime': 'always', 'EchoTime': 'always'}
+
+
+def _expected_markers(opts, pristine):
+    """Generator ground truth: which marker keys the meta data of a generated series must / must not contain under these
+    options (the series carry the private elements and CSA headers of _add_private).  {key: bool}"""
+    dis = _disabled_tags(opts.get('disable_translator'))
+    excl = pristine[0] + list(opts.get('exclude_regex') or [])
+    incl = pristine[1] + list(opts.get('include_regex') or [])
+    out = {}
+    for key, how in MARKERS.items():
+        if how == 'private':
+            got = bool(opts.get('extract_private'))
+        elif how == 'never':
+            got = False
+        elif how == 'always':
+            got = True
+        else:
+            got = dis != 'all' and dis is not None and how not in dis
+        filtered = any(re.search(p, key) for p in excl) and not any(re.search(p, key) for p in incl)
+        out[key] = bool(got and not filtered)
+    return out
+
+
 def _api_probe(probe_dir):
-    """Plain API use with every default: parse_and_stack without extractor / filter, the default extractor on
-    one file, the default filter on a few keys.  Must not depend on CLI invocations made earlier in the process."""
-    from glob import glob
+    """Plain API use with every default: parse_and_stack without extractor / filter, the default extractor on one file, the
+    default filter on a few keys.  Must not depend on command-line invocations made earlier in the process."""
+    import glob as globmod
     import pydicom
     core, cli, nit, extract, dcmmeta = _impl()
     out = {}
     try:
-        paths = sorted(glob(os.path.join(probe_dir, '*.dcm')))
+        paths = sorted(p for p in globmod.glob(os.path.join(probe_dir, '*')) if p.lower().endswith(('.dcm', '.ima')))
         with _quiet():
             stacks = core.parse_and_stack(paths)
             exts = []
             for key, st in stacks.items():
                 try:
-                    nii = st.to_nifti('LAS', True)
-                    exts.append(dcmmeta.NiftiWrapper(nii).meta_ext.to_json())
+                    exts.append(_mem_ext(st.to_nifti('LAS', True)))
                 except core.InvalidStackError:
                     exts.append('InvalidStackError')
-            out['stacks'] = [hashlib.sha1(e.encode('utf-8')).hexdigest() for e in exts]
-            out['stack_keys'] = [sorted(json.loads(e)['global']['const'].keys()) if e != 'InvalidStackError' else None for e in exts]
+            out['stacks'] = [hashlib.sha1(json.dumps(e, sort_keys=True).encode('utf-8')).hexdigest() for e in exts]
+            out['stack_keys'] = [sorted(_ext_keys(e)) if isinstance(e, dict) else None for e in exts]
             if paths:
                 meta = extract.default_extractor(pydicom.dcmread(paths[0]))
                 out['extractor_keys'] = sorted(meta.keys())
@@ -533,18 +764,32 @@ def _api_probe(probe_dir):
     return out
 
 
-def _fresh(cwd, opts, dirs):
-    """The same invocation as the first thing a new interpreter does; returns the summaries of what it wrote."""
+# ------------------------------------------------------------------------------------------------ other interpreters
+
+def _spawn(args, cwd, timeout):
+    """run `python -m props.c19 <args>`; one retry after a timeout (loaded machine).  -> (returncode | None, output text)"""
+    last = ''
+    for attempt in (0, 1):
+        try:
+            p = subprocess.run([sys.executable, '-m', 'props.c19'] + args, cwd=HERE, env=dict(os.environ),
+                               stdout=subprocess.PIPE, stderr=subprocess.STDOUT, timeout=timeout)
+            return p.returncode, p.stdout.decode('utf-8', 'replace')
+        except subprocess.TimeoutExpired as e:
+            last = 'no result within %ds (attempt %d)' % (timeout, attempt + 1)
+    return None, last
+
+
+def _fresh(cwd, opts, dirs, glob_mode=None, timeout=70):
+    """The same invocation as the first thing a new interpreter does; returns the summaries of what it wrote, or
+    {'harness': why} when the interpreter could not be run (reported as a broken correspondence, never as a pass)."""
     spec = os.path.join(cwd, 'fresh_spec.json')
     res = os.path.join(cwd, 'fresh_res.json')
-    json.dump({'cwd': cwd, 'opts': opts, 'dirs': dirs}, open(spec, 'w'))
+    json.dump({'cwd': cwd, 'opts': opts, 'dirs': dirs, 'glob_mode': glob_mode}, open(spec, 'w'))
     if os.path.exists(res):
         os.remove(res)
-    env = dict(os.environ)
-    p = subprocess.run([sys.executable, '-m', 'props.c19', 'fresh', spec, res], cwd=os.path.dirname(os.path.dirname(os.path.abspath(__file__))),
-                       env=env, stdout=subprocess.PIPE, stderr=subprocess.STDOUT, timeout=120)
+    rc, out = _spawn(['fresh', spec, res], cwd, timeout)
     if not os.path.exists(res):
-        return {'harness': 'fresh run failed: ' + p.stdout.decode('utf-8', 'replace')[-400:]}
+        return {'harness': 'fresh interpreter gave no result (rc=%r): %s' % (rc, out[-400:])}
     r = json.load(open(res))
     os.remove(spec)
     os.remove(res)
@@ -552,24 +797,74 @@ def _fresh(cwd, opts, dirs):
 
 
 def _fresh_main(spec, res):
-    repo = os.environ.get('DCMSTACK_REPO', '/repo')
-    sys.path.insert(0, os.path.join(repo, 'src'))
-    warnings.simplefilter('ignore')
     s = json.load(open(spec))
     os.chdir(s['cwd'])
     core, cli, nit, extract, dcmmeta = _impl()
     api_first = _api_probe('d0')          # the API, before any command-line invocation in this interpreter
     status, raised = None, None
-    with _quiet() as (so, se):
+    with _glob_order(s.get('glob_mode')), _quiet() as (so, se):
         try:
             status = cli.main(_argv(s['opts']))
         except SystemExit as e:
             status = 'exit:%s' % (e.code,)
         except Exception as e:
             raised = type(e).__name__
-    out = {'status': status, 'raised': raised, 'stdout': so.getvalue(), 'files': _summarise(s['dirs'], dcmmeta),
-           'api_first': api_first}
+    out = {'status': status, 'raised': raised, 'stdout': so.getvalue(), 'files': _summarise(s['dirs']), 'api_first': api_first}
     json.dump(out, open(res, 'w'))
+
+
+def _in_child(part, case, timeout):
+    """Run one case of `part` in its own interpreter.  -> observation; {'harness': why} when the child could not be run;
+    {'died': signal number, 'progress': ...} when the interpreter was killed (the tool under test took it down)."""
+    d = _scratch()
+    try:
+        spec, res = os.path.join(d, 'case.json'), os.path.join(d, 'obs.json')
+        json.dump(case, open(spec, 'w'))
+        rc, out = _spawn(['case', part, spec, res, d], d, timeout)
+        if os.path.exists(res):
+            try:
+                return json.load(open(res))
+            except ValueError:
+                pass
+        prog = None
+        if os.path.exists(res + '.progress'):
+            try:
+                prog = json.load(open(res + '.progress'))
+            except ValueError:
+                prog = None
+        if rc is not None and rc < 0:
+            return {'died': -rc, 'progress': prog}
+        return {'harness': 'case interpreter gave no result (rc=%r): %s' % (rc, out[-600:])}
+    finally:
+        shutil.rmtree(d, ignore_errors=True)
+
+
+def _progress(res, what):
+    """what the child is about to do (read by the parent when the child is killed)"""
+    if res:
+        json.dump(what, open(res + '.progress', 'w'))
+
+
+def _child_main(part, spec, res, workdir):
+    os.environ['VERIF_WORK'] = workdir
+    case = json.load(open(spec))
+    P = {'state': State, 'nitool': Nitool}[part]
+    try:
+        obs = P._run_case(case, res)
+    except Exception as e:
+        import traceback
+        obs = {'crash': type(e).__name__, 'msg': (str(e) + ' | ' + traceback.format_exc()[-600:])}
+    json.dump(obs, open(res, 'w'), default=str)
+
+
+def _tagged(msgs):
+    """oracle result: the first collected message (own clauses first); its [tag] is the signature"""
+    return msgs[0] if msgs else None
+
+
+def _tag_of(msg):
+    m = re.match(r'\[([^\]]+)\]', msg or '')
+    return m.group(1) if m else 'untagged'
 
 
 # ================================================================================================ part: names
@@ -593,6 +888,11 @@ def _model_groups(groups):
         cu = '(Err %s)' % c['err'] if isinstance(c, dict) else '(Ok %s)' % cstr(c)
         out.append('{| gm_num := %s; gm_name1 := %s; gm_name2 := %s; gm_custom := %s |}' % (mv(g['num']), mv(g['n1']), mv(g['n2']), cu))
     return clist(out)
+
+
+def sanitize(s):
+    import string
+    return ''.join(c if c in string.ascii_letters + string.digits + '-_.' else '_' for c in s)
 
 
 class Names:
@@ -653,7 +953,7 @@ class Names:
     @staticmethod
     def run_impl(case):
         core, cli, nit, extract, dcmmeta = _impl()
-        _case_start()
+        hist = _case_start('names/' + case.get('kind', '?'))
         cwd0 = os.getcwd()
         d = _scratch()
         try:
@@ -664,13 +964,14 @@ class Names:
             for s in case['series']:
                 n = _write_series('src', n, dict(s, S=1, T=1, priv=False))
             o = Names._opts(case)
-            obs = _run_recorded(o)
+            obs = _run_recorded(o, 'sorted')
             dest = 'out' if case.get('dest') else 'src'
             listing = sorted(os.path.basename(p) for p in _listing([dest]))
             return {'status': obs['status'], 'raised': obs['raised'], 'groups': obs['dirs'][0]['groups'] if obs['dirs'] else None,
                     'files': [os.path.basename(p) for p in obs['writes']], 'listing': listing,
                     'paths_ok': all(os.path.dirname(p) == dest for p in obs['writes']),
-                    'before': obs['before'], 'after': obs['after']}
+                    'hidden_before': obs['hidden_before'], 'hidden_after': obs['hidden_after'],
+                    'hidden_pristine': _PRISTINE_OBJ['hidden'], 'worker_history': hist[-8:]}
         finally:
             os.chdir(cwd0)
             shutil.rmtree(d, ignore_errors=True)
@@ -686,27 +987,35 @@ class Names:
     @staticmethod
     def oracle(case, obs):
         if 'crash' in obs:
-            return 'harness/implementation crashed: %s %s' % (obs.get('crash'), str(obs.get('msg'))[:200])
-        if obs.get('raised'):
-            return 'dcmstack raised %s on a directory of valid one-slice series' % obs['raised']['cls']
-        if obs.get('status') != 0:
-            return 'dcmstack exited with %r' % (obs.get('status'),)
+            return None                       # the driver's uniform rule reports it
+        msgs = []
         ng = len(case['series'])
-        if not isinstance(obs.get('groups'), list) or len(obs['groups']) != ng:
-            return None        # grouping is C18's business; the naming property is about the groups found
-        if len(obs['files']) != ng:
-            return '%d groups but %d files written' % (ng, len(obs['files']))
-        if len(set(obs['files'])) != ng or len(obs['listing']) != ng:
-            return '%d groups but only %d distinct output files (%s): an output overwrote another' % (ng, len(set(obs['files'])), sorted(obs['files']))
-        if not obs.get('paths_ok'):
-            return 'an output was written outside the destination directory'
-        if obs['before'] != obs['after']:
-            return 'module default regex lists changed by the invocation'
-        return None
+        if obs.get('raised'):
+            msgs.append('[names/raised] dcmstack raised %s on a directory of valid one-slice series' % obs['raised']['cls'])
+        elif obs.get('status') != 0:
+            msgs.append('[names/exit] dcmstack exited with %r on a directory of valid one-slice series' % (obs.get('status'),))
+        else:
+            # one series (own SeriesInstanceUID) per name: the generator knows there are ng groups
+            if len(obs['files']) != ng or len(obs['listing']) != ng or len(set(obs['files'])) != ng:
+                if len(set(obs['files'])) < len(obs['files']) or len(obs['listing']) < len(obs['files']):
+                    msgs.append('[names/overwrite] %d series but only %d distinct output files (%s): an output overwrote another' % (
+                        ng, min(len(set(obs['files'])), len(obs['listing'])), sorted(obs['files'])))
+                else:
+                    msgs.append('[names/count] %d series (one per name, each with its own SeriesInstanceUID) but %d files written' % (ng, len(obs['files'])))
+            if not obs.get('paths_ok'):
+                msgs.append('[names/outside] an output was written outside the destination directory')
+        hp = obs.get('hidden_pristine') or {}
+        for when, h in (('starts with', obs.get('hidden_before') or {}), ('leaves behind', obs.get('hidden_after') or {})):
+            diff = [x for x in h if x in hp and h[x] != hp[x]]
+            if diff:
+                msgs.append('[names/state-leak] the invocation %s module-level state that differs from the state at import: %s (cases run before '
+                            'in this interpreter: %s)' % (when, ', '.join(diff), obs.get('worker_history')))
+                break
+        return _tagged(msgs)
 
     @staticmethod
     def signature(case, obs, msg):
-        return 'names'
+        return _tag_of(msg)
 
     @staticmethod
     def nontrivial(case, obs):
@@ -727,12 +1036,16 @@ class Names:
                 yield c
 
 
-def sanitize(s):
-    import string
-    return ''.join(c if c in string.ascii_letters + string.digits + '-_.' else '_' for c in s)
-
-
 # ================================================================================================ part: state
+
+def _json_path(path):
+    t = path.split('.')
+    if t and t[-1] == 'gz':
+        t = t[:-1]
+    if t and t[-1] == 'nii':
+        t = t[:-1]
+    return '.'.join(t + ['json'])
+
 
 class State:
     NAME = "state"
@@ -742,17 +1055,29 @@ class State:
     CORR_SHOW = "Corr.show_state"
     SHARD = 5
     IMPL_TIMEOUT = 240
-    RULE = ("sequences of 2-4 dcmstack invocations in one process over 1-2 generated directories (1-3 series of 1-3 slices x 1-2 "
-            "time points, 2x2 pixels; equal series numbers / protocol names across directories are frequent): -e/-i lists, --embed-meta/--dump-meta, --voxel-order, --time-var with and without an order "
-            "file, --group-by, --output-name/--output-ext/--dest-dir, --extract-private, --disable-translator, --force-read, "
-            "--strict, plus the print-and-exit options and the error exits (no source directory, bad translator tag, an incongruent "
-            "file under --strict, incomplete stack); non-trivial = some invocation carries -e/-i and a later one does not")
+    RULE = ("sequences of 2-4 dcmstack invocations in one interpreter (one interpreter per case) over 1-2 generated directories (1-3 "
+            "series of 1-3 slices x 1-2 time points x 1-2 vector components, 2x2 pixels, private elements and CSA headers; equal series "
+            "numbers / protocol names across directories are frequent; files named .dcm or .ima; directory listings handed over "
+            "sorted, reversed or shuffled) or over the real 2D_16Echo_qT2 files: -e/-i lists, --embed-meta/--dump-meta, --voxel-order, "
+            "--time-var / --vector-var with and without order files, --group-by, --output-name/--output-ext/--dest-dir, --file-ext, "
+            "--extract-private, --disable-translator, --force-read, --strict, plus the print-and-exit options and the error exits "
+            "(no source directory, bad translator tag, missing order file, an incongruent file under --strict, incomplete stack); "
+            "non-trivial = at least two invocations of the sequence wrote files under different filter / extractor / embedding options")
 
     EXCL = ['EchoTime', 'Series', 'Rows', 'Foo', 'Repetition', '^Pixel']
-    INCL = ['PatientName', 'StudyDate', 'Bar', 'SeriesInstanceUID']
+    INCL = ['PatientName', 'StudyDate', 'Bar', 'SeriesInstanceUID', 'Private']
 
     @staticmethod
-    def _inv(rng, dirs, k):
+    def _series_of(dirs, names):
+        out = []
+        for d in names:
+            spec = dirs[int(d[1:])]
+            if isinstance(spec, list):
+                out += spec
+        return out
+
+    @staticmethod
+    def _inv(rng, dirs, k, suffix='.dcm'):
         o = dict(OPT_DEFAULT)
         r = rng.random()
         if r < 0.05:
@@ -777,11 +1102,21 @@ class State:
             o['include_regex'] = rng.sample(State.INCL, rng.randrange(1, 3))
         if rng.random() < 0.5:
             o['voxel_order'] = rng.choice(['RAS', 'LPI', '', 'ASL', 'LAS'])
-        has_t = any(s.get('T', 1) > 1 for d in o['src_dirs'] for s in dirs[int(d[1:])])
+        ser = State._series_of(dirs, o['src_dirs'])
+        has_t = any(s.get('T', 1) > 1 for s in ser) or any(not isinstance(dirs[int(d[1:])], list) for d in o['src_dirs'])
+        has_v = any(s.get('V', 1) > 1 for s in ser)
         if has_t and rng.random() < 0.6:
-            o['time_var'] = rng.choice(['EchoTime', 'AcquisitionNumber'])
-            if rng.random() < 0.5:
+            o['time_var'] = rng.choice(['EchoTime', 'AcquisitionNumber']) if ser else 'EchoTime'
+            if rng.random() < 0.5 and ser:
                 o['time_order'] = 'order_%s.txt' % o['time_var']
+            elif rng.random() < 0.06:
+                o['time_order'] = 'no_such_order_file.txt'
+        if has_v and rng.random() < 0.8:
+            o['vector_var'] = 'FlipAngle'
+            if rng.random() < 0.5:
+                o['vector_order'] = 'order_FlipAngle.txt'
+            if o['time_var'] is None and rng.random() < 0.7:
+                o['time_var'] = 'EchoTime'
         if rng.random() < 0.15:
             o['group_by'] = rng.choice(['SeriesInstanceUID', 'SeriesNumber,ProtocolName', 'SeriesInstanceUID,ImageOrientationPatient'])
         if rng.random() < 0.3:
@@ -794,6 +1129,10 @@ class State:
             o['extract_private'] = True
         if rng.random() < 0.3:
             o['disable_translator'] = rng.choice(['all', 'ALL', '0x29_0x1010', '0x29_0x1010,0x29_0x1020', '29_1020', 'zz', '0x29'])
+        if suffix != '.dcm':
+            o['file_ext'] = rng.choice([suffix, suffix, suffix, '', None])
+        elif rng.random() < 0.15:
+            o['file_ext'] = rng.choice(['.dcm', '', '.ima', 'm'])
         if rng.random() < 0.1:
             o['force_read'] = True
         if rng.random() < 0.15:
@@ -804,8 +1143,9 @@ class State:
 
     @staticmethod
     def gen_cases(rng, tier):
-        n = 72 if tier == 'quick' else 600
-        out = [{'kind': 'f10', 'dirs': [[{'uid': 1, 'num': 1, 'proto': 'a', 'descr': 'sd', 'S': 2, 'T': 1}]],
+        n = 96 if tier == 'quick' else 700
+        ser1 = {'uid': 1, 'num': 1, 'proto': 'a', 'descr': 'sd', 'S': 2, 'T': 1}
+        out = [{'kind': 'f10', 'dirs': [[ser1]],
                 'invs': [dict(OPT_DEFAULT, src_dirs=['d0'], exclude_regex=['Foo'], include_regex=['Bar'], embed_meta=True),
                          dict(OPT_DEFAULT, src_dirs=['d0'], embed_meta=True),
                          dict(OPT_DEFAULT, src_dirs=['d0'], default_regexes=True)]}]
@@ -816,6 +1156,19 @@ class State:
                     'invs': [dict(OPT_DEFAULT, src_dirs=['d0', 'd1'], dest_dir='out0', embed_meta=True),
                              dict(OPT_DEFAULT, src_dirs=['d0', 'd1'], dest_dir='out1', output_name='x'),
                              dict(OPT_DEFAULT, src_dirs=['d0', 'd1'])]})
+        # extractor options leaking through the shared default extractor
+        out.append({'kind': 'extractor', 'dirs': [[dict(ser1, T=2)]],
+                    'invs': [dict(OPT_DEFAULT, src_dirs=['d0'], embed_meta=True, disable_translator='all', extract_private=True),
+                             dict(OPT_DEFAULT, src_dirs=['d0'], dump_meta=True),
+                             dict(OPT_DEFAULT, src_dirs=['d0'], embed_meta=True, disable_translator='0x29_0x1020')]})
+        # real input (generated AND real, says the property)
+        out.append({'kind': 'real', 'dirs': ['real'],
+                    'invs': [dict(OPT_DEFAULT, src_dirs=['d0'], embed_meta=True, exclude_regex=['Echo']),
+                             dict(OPT_DEFAULT, src_dirs=['d0'], dump_meta=True, time_var='EchoTime', voxel_order='RAS'),
+                             dict(OPT_DEFAULT, src_dirs=['d0'], dest_dir='out2', output_ext='.nii')]})
+        out.append({'kind': 'real-incomplete', 'dirs': ['real+', [ser1]],
+                    'invs': [dict(OPT_DEFAULT, src_dirs=['d1', 'd0'], embed_meta=True),
+                             dict(OPT_DEFAULT, src_dirs=['d1'], embed_meta=True, include_regex=['Bar'])]})
         for i in range(n):
             nd = rng.choice([1, 1, 2])
             dirs = []
@@ -824,33 +1177,42 @@ class State:
                 ser = []
                 for s in range(rng.randrange(1, 4)):
                     ser.append({'uid': uid, 'num': rng.randrange(1, 4), 'proto': rng.choice(['a', 'a', 'b c', 'a-001']),
-                                'descr': rng.choice(['sd', None]), 'S': rng.randrange(1, 4), 'T': rng.choice([1, 1, 2])})
+                                'descr': rng.choice(['sd', None]), 'S': rng.randrange(1, 4), 'T': rng.choice([1, 1, 2]),
+                                'V': rng.choice([1, 1, 1, 2])})
                     uid += 1
                 dirs.append(ser)
             kind = 'valid'
             r = rng.random()
-            if r < 0.08:
+            if r < 0.1:
                 dirs[0][0]['bad'] = True
                 dirs[0][0]['S'] = max(2, dirs[0][0]['S'])
                 kind = 'incongruent'
-            elif r < 0.16:
+            elif r < 0.18:
                 dirs[0][0]['S'] = 3
                 dirs[0][0]['gap'] = True
                 kind = 'incomplete'
-            invs = [State._inv(rng, dirs, k) for k in range(rng.randrange(2, 5))]
+            suffix = '.ima' if rng.random() < 0.12 else '.dcm'
+            invs = [State._inv(rng, dirs, k, suffix) for k in range(rng.randrange(2, 5))]
             if kind == 'incongruent':
                 v = invs[rng.randrange(len(invs))]
                 v['strict'] = True
                 if not v['src_dirs']:
                     v['src_dirs'] = ['d0']
-            out.append({'kind': kind, 'dirs': dirs, 'invs': invs})
+            out.append({'kind': kind, 'dirs': dirs, 'suffix': suffix,
+                        'glob_mode': rng.choice(['sorted', 'sorted', 'reversed', 'shuffle%d' % rng.randrange(1, 9)]), 'invs': invs})
         return out
 
+    # ---------------------------------------------------------------- run (in the case's own interpreter)
     @staticmethod
     def run_impl(case):
+        return _in_child('state', case, 105)
+
+    @staticmethod
+    def _run_case(case, res=None):
         core, cli, nit, extract, dcmmeta = _impl()
-        _case_start()
+        _case_start('state/' + case.get('kind', '?'))
         pristine = (list(_PRISTINE[0]), list(_PRISTINE[1]))
+        gm = case.get('glob_mode') or 'sorted'
         cwd0 = os.getcwd()
         d = _scratch()
         try:
@@ -858,42 +1220,49 @@ class State:
             n = 0
             for j, ser in enumerate(case['dirs']):
                 os.makedirs('d%d' % j)
-                for s in ser:
-                    n = _write_series('d%d' % j, n, s)
+                if isinstance(ser, list):
+                    for s in ser:
+                        n = _write_series('d%d' % j, n, s, case.get('suffix') or '.dcm')
+                else:
+                    _copy_real('d%d' % j, complete=(ser == 'real'))
             for k in range(5):
                 os.makedirs('out%d' % k)
-            # order files: EchoTime / AcquisitionNumber values of make_grid's rule 't' (2 + 3t), reversed, with blanks
+            # order files: values of make_grid's rules 't' (2 + 3t) and 'v' (1 + 2v) and of the constant series, permuted, with blanks
             open('order_EchoTime.txt', 'w').write(' 5.0 \n2.0\n\t8.0\n3.0\n')
             open('order_AcquisitionNumber.txt', 'w').write('5\n 2\n8 \n4')
+            open('order_FlipAngle.txt', 'w').write('3.0\n 1.0\n30.0 \n')
+            all_dirs = ['d%d' % j for j in range(len(case['dirs']))]
+            out_dirs = sorted(set(all_dirs + ['out%d' % j for j in range(5)]))
             invs = []
             api_baseline = None
             for k, o in enumerate(case['invs']):
-                out_dirs = sorted(set(['d%d' % j for j in range(len(case['dirs']))] + ['out%d' % j for j in range(5)]))
                 _clean(out_dirs)
-                obs = _run_recorded(o)
-                obs['lines'] = {fn: open(fn).readlines() for fn in (o.get('time_order'), o.get('vector_order')) if fn}
-                mine = _summarise(out_dirs, dcmmeta)
+                obs = _run_recorded(o, gm)
+                obs['lines'] = {fn: open(fn).readlines() for fn in (o.get('time_order'), o.get('vector_order')) if fn and os.path.exists(fn)}
+                mine = _summarise(out_dirs)
                 obs['written'] = sorted(mine)
-                # the written files carry an extension?
                 for dd in obs['dirs']:
                     for f in dd['files']:
-                        f['has_ext'] = mine.get(f['path'], {}).get('ext') is not None
+                        m = mine.get(f['path'], {})
+                        f['has_ext'] = m.get('ext') is not None
+                        jp = _json_path(f['path'])
+                        src = m.get('ext') if m.get('ext') is not None else (mine.get(jp, {}).get('json') if o.get('dump_meta') else None)
+                        f['keys'] = sorted(_ext_keys(src)) if isinstance(src, dict) else None
+                        f['generated'] = isinstance(case['dirs'][int(dd['glob'].split('/')[0][1:])], list) if dd.get('glob') else None
+                _clean(out_dirs)           # the outputs are summarised: the API equivalent must see the directories as the tool did
                 # --- oracle material 1: the equivalent API calls
                 try:
-                    api = _api_equivalent(o, pristine) if obs['status'] == 0 or obs['raised'] else None
-                    api_err = None
-                except SystemExit:
-                    api, api_err = None, 'exit'
+                    api, api_err = _api_equivalent(o, pristine, gm), None
                 except Exception as e:
                     api, api_err = None, '%s: %s' % (type(e).__name__, str(e)[:200])
                 obs['api_cmp'] = State._compare_api(o, obs, mine, api, api_err)
+                obs['markers'] = _expected_markers(o, pristine)
                 _clean(out_dirs)
-                # --- oracle material 1b: the plain API (all defaults) called after this invocation
+                # --- 1b: the plain API (all defaults) called after this invocation
                 obs['api_after'] = _api_probe('d0')
-                # --- oracle material 2: the same invocation run first in a fresh interpreter
-                # (from the second invocation of the sequence on: the first has no history inside this case)
+                # --- 2: the same invocation run first in a fresh interpreter (the first invocation IS first in this one)
                 if k >= 1:
-                    fr = _fresh(d, o, out_dirs)
+                    fr = _fresh(d, o, out_dirs, gm)
                     obs['fresh_cmp'] = State._compare_fresh(obs, mine, fr)
                     if 'api_first' in fr:
                         api_baseline = fr['api_first']
@@ -906,68 +1275,84 @@ class State:
             if api_baseline is None:          # a one-invocation case (shrinking / replay): ask a fresh interpreter anyway
                 fr = _fresh(d, dict(OPT_DEFAULT, version=True), [])
                 api_baseline = fr.get('api_first')
+                if 'harness' in fr:
+                    invs[-1]['fresh_cmp'] = 'HARNESS ' + fr['harness']
             return {'invs': invs, 'api_baseline': api_baseline, 'hidden_pristine': _PRISTINE_OBJ['hidden']}
         finally:
             os.chdir(cwd0)
             shutil.rmtree(d, ignore_errors=True)
 
     @staticmethod
-    def _compare_api(o, obs, mine, api, api_err):
-        """None = the tool's files equal the API results; else a message."""
-        if obs['status'] != 0 and not obs['raised']:
-            return None                      # usage error / print-and-exit: nothing to compare
+    def _expect_usage(o):
         if any(o.get(k) for k in ('version', 'list_translators', 'default_regexes')):
+            return False
+        if (o.get('embed_meta') or o.get('dump_meta')) and _disabled_tags(o.get('disable_translator')) is None:
+            return True
+        return not o.get('src_dirs')
+
+    @staticmethod
+    def _compare_api(o, obs, mine, api, api_err):
+        """None = the tool did what the equivalent API calls do; else a '[tag] message'."""
+        if any(o.get(k) for k in ('version', 'list_translators', 'default_regexes')):
+            if obs['status'] != 0 or obs['raised']:
+                return '[state/print-exit] a print-and-exit option ended with %r / %r' % (obs['status'], obs['raised'])
             return None
+        if obs['status'] not in (0, None) and not obs['raised']:
+            if State._expect_usage(o):
+                return None
+            return '[state/usage] the tool refused valid options with %r' % (obs['status'],)
+        if api == 'usage':
+            return None                  # a malformed option value was accepted: the property does not say
         if api is None:
-            return 'equivalent API calls failed (%s) although the tool ran' % api_err if not obs['raised'] else None
+            return '[state/api-failed] the equivalent API calls failed (%s)' % api_err
+        if api and api[0].get('before_dirs'):
+            return None if obs['raised'] else '[state/raised] the equivalent API calls raise %s before any directory is read, the tool ran' % api[0]['raised']
         for di, dd in enumerate(obs['dirs']):
             if di >= len(api):
-                return 'the tool processed more directories than the API equivalent'
+                return '[state/dirs] the tool processed more directories than the API equivalent'
             want = api[di]['files']
             got = dd['files']
             if len(got) != len(want):
-                return 'directory %s: tool wrote %d files, API yields %d stacks' % (dd.get('glob'), len(got), len(want))
+                return '[state/count] directory %s: tool wrote %d files, the API yields %d stacks' % (dd.get('glob'), len(got), len(want))
             for f, w in zip(got, want):
                 m = mine.get(f['path'])
                 if m is None:
-                    return 'file %s reported written but not found' % f['path']
+                    return '[state/missing] file %s reported written but not found' % f['path']
+                if 'unreadable' in m:
+                    return '[state/unreadable] file %s cannot be read back (%s)' % (f['path'], m['unreadable'])
                 for k in ('shape', 'dtype', 'data', 'affine', 'pixdim', 'dim_info', 'xyzt', 'slice_times', 'ext'):
                     if m[k] != w[k]:
-                        return 'file %s differs from the API result in %s' % (f['path'], k)
+                        return '[state/api/%s] file %s differs from the API result in %s' % (k, f['path'], k)
                 if o.get('dump_meta'):
-                    t = f['path'].split('.')
-                    if t[-1] == 'gz':
-                        t = t[:-1]
-                    if t[-1] == 'nii':
-                        t = t[:-1]
-                    jp = '.'.join(t + ['json'])
+                    jp = _json_path(f['path'])
                     if jp not in mine:
-                        return 'meta data dump %s missing' % jp
+                        return '[state/dump-missing] meta data dump %s missing' % jp
                     if mine[jp]['json'] != w['dump']:
-                        return 'meta data dump %s differs from the extension the API builds' % jp
-        if obs['raised']:
-            last = api[len(obs['dirs']) - 1] if obs['dirs'] and len(obs['dirs']) <= len(api) else None
-            if last is not None and last['raised'] != obs['raised']['cls']:
-                return 'the tool raised %s, the API equivalent %s' % (obs['raised']['cls'], last['raised'])
-        elif any(x['raised'] for x in api):
-            return 'the API equivalent raised %s but the tool returned normally' % [x['raised'] for x in api if x['raised']][0]
+                        return '[state/api/dump] meta data dump %s differs from the extension the API builds' % jp
+        n_api_raised = [x['raised'] for x in api if x['raised']]
+        if obs['raised'] and not n_api_raised:
+            return '[state/raised] the tool raised %s, the equivalent API calls do not raise' % obs['raised']['cls']
+        if not obs['raised'] and n_api_raised:
+            return '[state/not-raised] the equivalent API calls raise %s but the tool returned normally' % n_api_raised[0]
+        if not obs['raised'] and len(obs['dirs']) != len(api):
+            return '[state/dirs] the tool read %d directories, the request names %d' % (len(obs['dirs']), len(api))
         return None
 
     @staticmethod
     def _compare_fresh(obs, mine, fr):
         if 'harness' in fr:
             return 'HARNESS ' + fr['harness']
-        if fr['status'] != obs['status'] or (fr['raised'] or None) != (obs['raised']['cls'] if obs['raised'] else None):
-            return 'in a fresh process the invocation ends with %r/%r, here with %r/%r' % (
+        if fr['status'] != obs['status'] or bool(fr['raised']) != bool(obs['raised']):
+            return '[state/fresh/status] in a fresh process the invocation ends with %r/%r, here with %r/%r' % (
                 fr['status'], fr['raised'], obs['status'], obs['raised']['cls'] if obs['raised'] else None)
         if fr['stdout'] != obs['stdout']:
-            return 'printed output differs from the same invocation in a fresh process'
+            return '[state/fresh/stdout] printed output differs from the same invocation in a fresh process'
         if sorted(fr['files']) != sorted(mine):
-            return 'files written %s, in a fresh process %s' % (sorted(mine), sorted(fr['files']))
+            return '[state/fresh/files] files written %s, in a fresh process %s' % (sorted(mine), sorted(fr['files']))
         for p in mine:
             if mine[p] != fr['files'][p]:
                 k = [x for x in mine[p] if mine[p][x] != fr['files'][p].get(x)]
-                return 'file %s differs (%s) from the same invocation run first in a fresh process' % (p, ','.join(k))
+                return '[state/fresh/%s] file %s differs (%s) from the same invocation run first in a fresh process' % (k[0] if k else 'x', p, ','.join(k))
         return None
 
     # ---------------------------------------------------------------- Coq rendering
@@ -989,20 +1374,17 @@ class State:
 
     @staticmethod
     def _coq_inv(o, obs):
+        if (obs.get('fresh_cmp') or '').startswith('HARNESS'):
+            raise ValueError('harness: %s' % obs['fresh_cmp'])
         dirs = []
         for dd in obs['dirs']:
             files = []
             for f in dd['files']:
                 if f['filter'] is None or f['filter']['incl'] is None or f['nifti'] is None or f['extra_kw']:
-                    raise ValueError('stack built with unexpected arguments: %r' % (f,))
+                    raise ValueError('stack built with arguments the model does not know: %r' % (f,))
                 jp = None
                 if o.get('dump_meta'):
-                    t = f['path'].split('.')
-                    if t and t[-1] == 'gz':
-                        t = t[:-1]
-                    if t and t[-1] == 'nii':
-                        t = t[:-1]
-                    cand = '.'.join(t + ['json'])
+                    cand = _json_path(f['path'])
                     jp = cand if cand in obs['written'] else None
                 files.append('{| fb_group := %s; fb_excl := %s; fb_incl := %s; fb_time := %s; fb_vec := %s; fb_warn := %s; fb_vo := %s; '
                              'fb_embed := %s; fb_path := %s; fb_json := %s; fb_has_ext := %s |}' % (
@@ -1011,98 +1393,118 @@ class State:
                                  cbool(f['nifti']['embed']), cstr(f['path']), copt(jp, cstr), cbool(f['has_ext'])))
             g = dd['groups']
             groups = '(Err %s)' % g['err'] if isinstance(g, dict) else '(Ok %s)' % _model_groups(g)
+            if dd.get('glob') is None or dd.get('extra_args'):
+                raise ValueError('parse_and_group called in a way the model does not know: %r' % {k: dd[k] for k in ('glob', 'extra_args')})
             dirs.append('{| db_glob := %s; db_paths := %s; db_group_by := %s; db_extractor := %s; db_force := %s; db_warn := %s; '
                         'db_groups := %s; db_files := %s |}' % (
                             cstr(dd['glob']), clist(cstr(p) for p in dd['paths']), clist(cstr(s) for s in dd['group_by']),
                             State._coq_extractor(dd['extractor']), cbool(dd['force']), cbool(dd['warn']), groups, clist(files)))
-        if o.get('version') and obs['status'] == 0:
+        ok = obs['status'] == 0 and not obs['raised']
+        if o.get('version') and ok:
             out = 'BVersion'
-        elif obs['status'] == 0 and obs['stdout'].startswith('Default exclude regular expressions:') and o.get('default_regexes'):
-            lines = obs['stdout'].split('\n')
-            i = lines.index('Default include regular expressions:')
-            ex = [l[1:] for l in lines[1:i]]
-            inc = [l[1:] for l in lines[i + 1:] if l]
-            out = '(BRegexes %s %s)' % (clist(cstr(s) for s in ex), clist(cstr(s) for s in inc))
-        elif obs['status'] == 0 and o.get('list_translators') and not obs['dirs']:
-            out = '(BTranslators %s)' % clist(cstr(l.split(' -> ', 1)[1]) for l in obs['stdout'].split('\n') if ' -> ' in l)
-        elif obs['status'] == 'exit:2':
+        elif o.get('list_translators') and ok and not obs['dirs']:
+            # one line per translator, the name is the last blank-separated word (the layout of the line is not the property's)
+            out = '(BTranslators %s)' % clist(cstr(l.split()[-1]) for l in obs['stdout'].split('\n') if l.strip())
+        elif o.get('default_regexes') and ok and not obs['dirs']:
+            # the patterns are the indented lines; headings (whatever their wording) are ignored
+            pats = [l.strip() for l in obs['stdout'].split('\n') if l[:1] in (' ', '\t') and l.strip()]
+            out = '(BRegexes %s)' % clist(cstr(s) for s in pats)
+        elif isinstance(obs['status'], str) and obs['status'].startswith('exit:') and obs['status'] != 'exit:0':
             out = 'BUsage'
         elif obs['status'] == 0 or obs['raised']:
             out = '(BRun %s %s)' % (clist(dirs), copt(obs['raised'], lambda r: r['err']))
         else:
             raise ValueError('unexpected exit status %r' % (obs['status'],))
-        dname = lambda i: obs['dirs'][i]['glob'].rsplit('/', 1)[0] if i < len(obs['dirs']) else ''
+        dname = lambda i: obs['dirs'][i]['glob'].rsplit('/', 1)[0] if 0 <= i < len(obs['dirs']) and obs['dirs'][i].get('glob') else ''
         return ('{| v_args := %s; v_lines := %s; v_stack_err := %s; v_nifti_err := %s; v_before := %s; v_after := %s; v_dx_before := %s; '
                 'v_dx_after := %s; v_out := %s |}' % (
             _coq_args(o), clist(cpair(cstr(fn), clist(cstr(l) for l in ls)) for fn, ls in sorted(obs['lines'].items())),
-            clist(cpair(cpair(cstr(dname(e[0])), cnat(e[1])), e[2]) for e in obs['stack_err']),
-            clist(cpair(cpair(cstr(dname(e[0])), cnat(e[1])), e[2]) for e in obs['nifti_err']),
+            clist(cpair(cpair(cstr(dname(e[0])), cnat(max(e[1], 0))), e[2]) for e in obs['stack_err']),
+            clist(cpair(cpair(cstr(dname(e[0])), cnat(max(e[1], 0))), e[2]) for e in obs['nifti_err']),
             cpair(clist(cstr(s) for s in obs['before'][0]), clist(cstr(s) for s in obs['before'][1])),
             cpair(clist(cstr(s) for s in obs['after'][0]), clist(cstr(s) for s in obs['after'][1])),
             State._coq_extractor(obs['hidden_before']['dx']), State._coq_extractor(obs['hidden_after']['dx']), out))
 
     @staticmethod
     def coq_case(case, obs):
+        if 'harness' in obs:
+            raise ValueError('harness: %s' % obs['harness'])
         return '{| s_invs := %s |}' % clist(State._coq_inv(o, ob) for o, ob in zip(case['invs'], obs['invs']))
 
+    # ---------------------------------------------------------------- oracle
     @staticmethod
     def oracle(case, obs):
-        if 'crash' in obs:
-            return 'harness/implementation crashed: %s %s' % (obs.get('crash'), str(obs.get('msg'))[:300])
+        if 'crash' in obs or 'harness' in obs:
+            return None          # crash: the driver's uniform rule; harness: coq_case raises (broken correspondence)
+        if 'died' in obs:
+            return '[state/killed] the interpreter running the invocation sequence was killed by signal %s' % obs['died']
+        msgs = []
+        hp = obs.get('hidden_pristine') or {}
         for k, (o, ob) in enumerate(zip(case['invs'], obs['invs'])):
             tag = 'invocation %d (%s)' % (k + 1, ' '.join(_argv(o)))
-            if ob['before'] != ob['pristine']:
-                return '%s starts with module default regex lists that differ from the ones at import (%d/%d instead of %d/%d patterns): an earlier invocation leaked its options' % (
-                    tag, len(ob['before'][0]), len(ob['before'][1]), len(ob['pristine'][0]), len(ob['pristine'][1]))
-            if ob['after'] != ob['before']:
-                return '%s changed the module default regex lists (%d->%d exclude, %d->%d include)' % (
-                    tag, len(ob['before'][0]), len(ob['after'][0]), len(ob['before'][1]), len(ob['after'][1]))
-            hp = obs.get('hidden_pristine')
+            # --- no hidden state
             for when, h in (('starts with', ob['hidden_before']), ('leaves behind', ob['hidden_after'])):
-                diff = [x for x in h if hp is not None and h[x] != hp[x]]
+                diff = [x for x in h if x in hp and h[x] != hp[x]]
                 if diff:
-                    return '%s %s module-level state that differs from the state at import: %s (now %s, at import %s)' % (
-                        tag, when, ', '.join(diff), json.dumps(h[diff[0]])[:200], json.dumps(hp[diff[0]])[:200])
+                    what = 'regex-lists' if set(diff) <= {'excl', 'incl'} else 'extractor' if set(diff) <= {'dx', 'dx_conversions'} else 'module'
+                    msgs.append('[state/leak/%s] %s %s module-level state that differs from the state at import: %s (now %s, at import %s)' % (
+                        what, tag, when, ', '.join(diff), json.dumps(h[diff[0]])[:200], json.dumps(hp[diff[0]])[:200]))
+                    break
             if obs.get('api_baseline') is not None and ob.get('api_after') != obs['api_baseline']:
                 d_ = [x for x in obs['api_baseline'] if ob['api_after'].get(x) != obs['api_baseline'][x]] or sorted(ob['api_after'])
-                return ('after %s the plain API (parse_and_stack / default_extractor / default_meta_filter with all defaults) behaves differently '
-                        'from a fresh process: %s is %s, fresh %s' % (tag, d_[0], json.dumps(ob['api_after'].get(d_[0]))[:300],
-                                                                       json.dumps(obs['api_baseline'].get(d_[0]))[:300]))
+                msgs.append('[state/leak/api] after %s the plain API (parse_and_stack / default_extractor / default_meta_filter with all defaults) '
+                            'behaves differently from a fresh process: %s is %s, fresh %s' % (
+                                tag, d_[0], json.dumps(ob['api_after'].get(d_[0]))[:300], json.dumps(obs['api_baseline'].get(d_[0]))[:300]))
+            # --- one file per group under a unique name
             seen = {}
             for di, dd in enumerate(ob['dirs']):
                 for f in dd['files']:
-                    if f['path'] in seen and seen[f['path']] != di:
-                        return ('%s: dest-dir collision: groups of two source directories (%s, %s) were both written to %s; the '
-                                'names are unique per source directory only, one output is lost' % (
-                                    tag, ob['dirs'][seen[f['path']]]['glob'], dd['glob'], f['path']))
+                    if f['path'] in seen:
+                        if seen[f['path']] != di:
+                            msgs.append('[state/dest-dir-collision] %s: groups of two source directories (%s, %s) were both written to %s, one '
+                                        'output is lost' % (tag, ob['dirs'][seen[f['path']]]['glob'], dd['glob'], f['path']))
+                        else:
+                            msgs.append('[state/name-collision] %s: two groups of one directory written to %s' % (tag, f['path']))
                     seen.setdefault(f['path'], di)
+            # --- the API's data, affine and extension
             if ob['api_cmp']:
-                return '%s: %s' % (tag, ob['api_cmp'])
+                msgs.append(ob['api_cmp'].replace('] ', '] %s: ' % tag, 1))
+            # --- generator ground truth: which keys the options must let through
+            if (o.get('embed_meta') or o.get('dump_meta')) and ob.get('markers'):
+                for dd in ob['dirs']:
+                    for f in dd['files']:
+                        if not f.get('generated') or f.get('keys') is None:
+                            continue
+                        wrong = sorted(k_ for k_, want in ob['markers'].items() if (k_ in f['keys']) != want)
+                        if wrong:
+                            msgs.append('[state/keys] %s: the meta data of %s %s the key %s although the options say the opposite '
+                                        '(extract-private %s, disabled translators %r, -e %s, -i %s)' % (
+                                            tag, f['path'], 'has' if wrong[0] in f['keys'] else 'lacks', wrong[0], bool(o.get('extract_private')),
+                                            o.get('disable_translator'), o.get('exclude_regex'), o.get('include_regex')))
+                            break
+            # --- independence of earlier invocations
             if ob['fresh_cmp'] and not ob['fresh_cmp'].startswith('HARNESS'):
-                return '%s: %s' % (tag, ob['fresh_cmp'])
-            for dd in ob['dirs']:
-                names = [f['path'] for f in dd['files']]
-                if len(set(names)) != len(names):
-                    return '%s: two groups of one directory written to the same path' % tag
-        return None
+                msgs.append(ob['fresh_cmp'].replace('] ', '] %s: ' % tag, 1))
+        return _tagged(msgs)
 
     @staticmethod
     def signature(case, obs, msg):
-        if 'module default regex lists' in (msg or '') or 'module-level state' in (msg or '') or 'plain API' in (msg or ''):
-            return 'state-leak'
-        if 'dest-dir collision' in (msg or ''):
-            return 'dest-dir-collision'
-        return 'state'
+        return _tag_of(msg)
+
+    @staticmethod
+    def _effective(o):
+        return (tuple(o.get('exclude_regex') or ()), tuple(o.get('include_regex') or ()), bool(o.get('embed_meta')), bool(o.get('dump_meta')),
+                bool(o.get('extract_private')), o.get('disable_translator'), o.get('voxel_order'), o.get('time_var'), o.get('vector_var'))
 
     @staticmethod
     def nontrivial(case, obs):
-        seen = False
-        for o in case['invs']:
-            if (o.get('exclude_regex') or o.get('include_regex')):
-                seen = True
-            elif seen:
-                return True
-        return False
+        if not isinstance(obs.get('invs'), list):
+            return False
+        ran = set()
+        for o, ob in zip(case['invs'], obs['invs']):
+            if ob.get('status') == 0 and any(dd['files'] for dd in ob['dirs']):
+                ran.add(State._effective(o))
+        return len(ran) >= 2
 
     @staticmethod
     def shrink(case):
@@ -1113,25 +1515,49 @@ class State:
                 c['invs'] = invs[:i] + invs[i + 1:]
                 yield c
         for j, ser in enumerate(case['dirs']):
+            if not isinstance(ser, list):
+                continue
             for i in range(len(ser)):
                 if len(ser) > 1:
                     c = dict(case)
-                    c['dirs'] = [list(x) for x in case['dirs']]
+                    c['dirs'] = [list(x) if isinstance(x, list) else x for x in case['dirs']]
                     c['dirs'][j] = ser[:i] + ser[i + 1:]
                     yield c
 
 
 # ================================================================================================ part: nitool
 
-def _make_nii(path, S, T, keys=None, embed=True):
-    """A generated S x T series converted through the API and saved to `path`."""
-    import random, nibabel as nb
+CLASSES = [['global', 'const'], ['global', 'slices'], ['time', 'samples'], ['time', 'slices'], ['vector', 'samples'], ['vector', 'slices']]
+
+
+def _shape_of(S, T, V):
+    return [2, 2, S] + ([T, V] if V > 1 else [T] if T > 1 else [])
+
+
+def _class_table(S, T, V):
+    """Ground truth from the documented format: the classifications valid for an image of S slices, T time points and V
+    vector components, with the number of values each holds.  [[base, sub], n]"""
+    nd = len(_shape_of(S, T, V))
+    out = [(['global', 'const'], 1), (['global', 'slices'], S * T * V)]
+    if nd >= 4 and not (nd == 5 and T == 1):
+        out += [(['time', 'samples'], T * V), (['time', 'slices'], S)]
+    if nd == 5:
+        out += [(['vector', 'samples'], V), (['vector', 'slices'], S * T)]
+    return out
+
+
+def _make_nii(path, S, T, V=1, keys=None, embed=True, rows=2, cols=2):
+    """A generated S x T x V series converted through the API and saved to `path`."""
+    import nibabel as nb
     from props import stacklib
     core, cli, nit, extract, dcmmeta = _impl()
-    files = stacklib.make_grid(random.Random(0), S, T, 1, rows=2, cols=2, tagrules={'EchoTime': 't'} if T > 1 else None,
-                               consts={'RepetitionTime': 100.0, 'FlipAngle': 30.0})
-    st = core.DicomStack()
+    files = _grid(S, T, V, rows, cols)
+    st = core.DicomStack(time_order=core.DicomOrdering('EchoTime') if (T > 1 or V > 1) else None,
+                         vector_order=core.DicomOrdering('FlipAngle') if V > 1 else None)
     for f in files:
+        f['tags'].setdefault('EchoTime', 3.0)
+        f['tags'].setdefault('FlipAngle', 30.0)
+        f['tags']['RepetitionTime'] = 100.0
         if keys is not None:
             f['tags']['AcquisitionNumber'] = int(keys[f['cell'][1]])
         f['tags']['InstanceNumber'] = f['id'] + 1
@@ -1144,18 +1570,23 @@ def _make_nii(path, S, T, keys=None, embed=True):
     return nii
 
 
-def _ext_view(path, dcmmeta):
+def _class_dicts(j, table):
+    """the class dictionaries of a parsed extension for the classes of `table` (missing ones as {})"""
+    return {'/'.join(c): dict(((j or {}).get(c[0]) or {}).get(c[1]) or {}) for c, n in table}
+
+
+def _lib_view(path, dcmmeta):
+    """what the LIBRARY says about the file's extension (input of the Coq model of inject; cross-checked with the table)"""
     import nibabel as nb
-    w = dcmmeta.NiftiWrapper(nb.load(path), make_empty=True)
-    e = w.meta_ext
-    valid = [list(c) for c in e.get_valid_classes()]
-    return {'valid': valid, 'mult': [[list(c), int(e.get_multiplicity(c))] for c in e.get_valid_classes()],
-            'keys': [[list(c), list(e.get_class_dict(c).keys())] for c in e.get_valid_classes()],
-            'dicts': {'/'.join(c): json.loads(json.dumps(e.get_class_dict(c))) for c in e.get_valid_classes()}}
+    e = dcmmeta.NiftiWrapper(nb.load(path, mmap=False), make_empty=True).meta_ext
+    vc = [list(c) for c in e.get_valid_classes()]
+    return {'valid': vc, 'mult': [[c, int(e.get_multiplicity(tuple(c)))] for c in vc],
+            'keys': [[c, list(e.get_class_dict(tuple(c)).keys())] for c in vc]}
 
 
-def _run_nitool(argv, stdin_text=None):
+def _run_nitool(argv, res=None, target=None):
     core, cli, nit, extract, dcmmeta = _impl()
+    _progress(res, {'argv': argv, 'file': target})
     rc, raised = None, None
     with _quiet() as (so, se):
         try:
@@ -1164,7 +1595,8 @@ def _run_nitool(argv, stdin_text=None):
             rc = 'exit:%s' % (e.code,)
         except Exception as e:
             raised = {'err': _err(e), 'cls': type(e).__name__, 'msg': str(e)[:200]}
-    return {'rc': rc, 'raised': raised, 'stdout': so.getvalue()}
+    _progress(res, None)
+    return {'rc': rc, 'raised': raised, 'stdout': so.getvalue(), 'refused': bool(raised) or rc not in (0, None)}
 
 
 def _py_convert(values, ty):
@@ -1182,6 +1614,14 @@ def _py_convert(values, ty):
     else:
         l = conv({'int': int, 'float': float, 'str': str}[ty])
     return l[0] if len(l) == 1 else l
+
+
+def _same_value(a, b):
+    if type(a) is not type(b):
+        return False
+    if isinstance(a, list):
+        return len(a) == len(b) and all(_same_value(x, y) for x, y in zip(a, b))
+    return a == b
 
 
 def _stored_lit(v):
@@ -1202,6 +1642,11 @@ def _stored_lit(v):
     return '(SScalar %s)' % iv(v)
 
 
+def _geom(path):
+    s = _file_summary(path)
+    return {k: s.get(k) for k in ('shape', 'dtype', 'data', 'affine', 'pixdim', 'unreadable')}
+
+
 class Nitool:
     NAME = "nitool"
     CORR_REQUIRE = "From DV Require Import Common.PyNum Generated.T_cli Cli.Model Cli.Corr."
@@ -1209,29 +1654,39 @@ class Nitool:
     CORR_CHECK = "Corr.check_nitool"
     CORR_SHOW = "Corr.show_nitool"
     SHARD = 60
-    IMPL_TIMEOUT = 120
-    RULE = ("generated 3-D / 4-D NIfTI files with embedded extension (2x2 pixels, 1-3 slices, 1-3 time points): dump then embed "
-            "(file / stdout, with and without removing), split along each dimension, merge of shuffled volumes with and without "
-            "--sort (ties included) and --clear-slices, lookup with and without index of constant / per-slice / per-volume keys "
-            "including planted falsy values (0, 0.0, '', [], False) and None, inject with valid / invalid classification, "
-            "right / wrong value count, new / existing key with and without --force-overwrite, --type; non-trivial = inject, a "
-            "merge with --sort, or a lookup whose value is falsy")
+    IMPL_TIMEOUT = 150
+    RULE = ("generated 3-D / 4-D / 5-D NIfTI files with embedded extension (1-3 slices, 1-3 time points, 1-2 vector components; "
+            "compressed .nii.gz with 2x2 pixels or UNCOMPRESSED .nii with 96x96 pixels, which nibabel memory maps), every case in "
+            "its own interpreter: dump then embed (file / stdout, with and without --remove, --make-empty on files without extension), "
+            "split along every dimension (default names and --output-format), merge of shuffled parts along dimensions 2-4 with and "
+            "without --sort (ties included), --clear-slices and a format string as output name, lookup with and without index of "
+            "constant / per-slice / per-volume keys including planted falsy values, inject with valid / invalid classification, "
+            "right / wrong value count, new / existing key with and without --force-overwrite, --type, and HISTORIES of 3-6 such "
+            "commands on one file; non-trivial = inject, a history, a merge with --sort, a lookup of a falsy value, or any command "
+            "that rewrites an uncompressed file")
+
+    @staticmethod
+    def _dims(rng):
+        S, T = rng.randrange(1, 4), rng.choice([1, 2, 3])
+        V = rng.choice([1, 1, 1, 2])
+        return S, T, V
 
     @staticmethod
     def gen_cases(rng, tier):
-        n = 130 if tier == 'quick' else 1400
-        out = []
+        n = 150 if tier == 'quick' else 1500
+        out = [  # the F22 / F24 situations: commands that save onto the (memory mapped) file they loaded
+            {'kind': 'inject', 'S': 3, 'T': 2, 'V': 1, 'gz': False, 'cls': ['global', 'const'], 'key': 'NewKey', 'values': ['5'], 'type': None, 'force': False},
+            {'kind': 'dump-embed', 'S': 3, 'T': 2, 'V': 1, 'gz': False, 'stdout': False, 'remove': True, 'noext': False, 'make_empty': False},
+            {'kind': 'dump-embed', 'S': 3, 'T': 2, 'V': 1, 'gz': False, 'stdout': False, 'remove': False, 'noext': False, 'make_empty': False}]
         for i in range(n):
             r = rng.random()
-            S, T = rng.randrange(1, 4), rng.choice([1, 2, 3])
-            if r < 0.5:
-                classes = [['global', 'const'], ['global', 'slices'], ['time', 'samples'], ['time', 'slices'], ['vector', 'samples'],
-                           ['vector', 'slices'], ['foo', 'bar'], ['global', 'samples'], ['const', 'global']]
-                valid = classes[:4] if T > 1 else classes[:2]
-                cls = rng.choice(valid if rng.random() < 0.8 else classes)
-                table = {'global/const': 1, 'global/slices': S * T, 'time/samples': T, 'time/slices': S} if T > 1 else \
-                    {'global/const': 1, 'global/slices': S}
-                mult = table.get('/'.join(cls), rng.randrange(1, 4))
+            S, T, V = Nitool._dims(rng)
+            gz = rng.random() < 0.6
+            if r < 0.4:
+                table = _class_table(S, T, V)
+                valid = [c for c, m in table]
+                cls = rng.choice(valid if rng.random() < 0.8 else CLASSES + [['foo', 'bar'], ['global', 'samples'], ['const', 'global']])
+                mult = dict(('/'.join(c), m) for c, m in table).get('/'.join(cls), rng.randrange(1, 4))
                 cnt = mult if rng.random() < 0.8 else max(1, mult + rng.choice([-1, 1, 2]))
                 key = rng.choice(['NewKey', 'NewKey', 'Other', 'EchoTime', 'RepetitionTime', 'Rows', 'InstanceNumber', 'FlipAngle'])
                 vt = rng.choice(['int', 'int', 'float', 'word', 'mixed'])
@@ -1241,220 +1696,342 @@ class Nitool:
                     vals.append({'int': str(rng.randrange(0, 500)), 'float': '%d.%d' % (rng.randrange(0, 50), rng.randrange(0, 100)),
                                  'word': rng.choice(['abc', 'x1', '1e', 'T2', '1_0', '0x10', ' 7', '1.5.2'])}[t])
                 ty = rng.choice([None, None, None, 'int', 'float', 'str', 'bogus'])
-                out.append({'kind': 'inject', 'S': S, 'T': T, 'cls': cls, 'key': key, 'values': vals, 'type': ty, 'force': rng.random() < 0.5})
+                out.append({'kind': 'inject', 'S': S, 'T': T, 'V': V, 'gz': gz, 'cls': cls, 'key': key, 'values': vals, 'type': ty,
+                            'force': rng.random() < 0.5})
+            elif r < 0.52:
+                noext = rng.random() < 0.25
+                out.append({'kind': 'dump-embed', 'S': S, 'T': T, 'V': V, 'gz': gz, 'stdout': rng.random() < 0.3, 'remove': rng.random() < 0.5,
+                            'noext': noext, 'make_empty': noext and rng.random() < 0.6})
             elif r < 0.62:
-                out.append({'kind': 'dump-embed', 'S': S, 'T': T, 'stdout': rng.random() < 0.3, 'remove': rng.random() < 0.5})
-            elif r < 0.74:
-                out.append({'kind': 'split', 'S': S, 'T': T, 'dim': rng.choice([None, None, 2, 3 if T > 1 else 2, 0])})
-            elif r < 0.84:
+                nd = len(_shape_of(S, T, V))
+                dim = rng.choice([None, None] + list(range(nd)) + [nd])
+                fmt = None
+                if dim == 3 and T > 1 and V == 1 and rng.random() < 0.6:
+                    fmt = 'sub/t_%(EchoTime)s' + ('.nii.gz' if gz else '.nii')
+                out.append({'kind': 'split', 'S': S, 'T': T, 'V': V, 'gz': gz, 'dim': dim, 'fmt': fmt})
+            elif r < 0.72:
                 nv = rng.randrange(2, 5)
+                dim = rng.choice([3, 3, 3, None, 2, 4])
                 keys = [rng.randrange(1, 4) for _ in range(nv)] if rng.random() < 0.6 else rng.sample(range(1, 20), nv)
-                out.append({'kind': 'merge', 'S': S, 'nv': nv, 'keys': keys, 'sort': rng.random() < 0.7, 'clear': rng.random() < 0.3,
-                            'dim': rng.choice([None, 3])})
-            else:
-                # keys of the generated image plus keys planted by the harness whose values are FALSY (0, 0.0, '', [], False)
-                # or None, as constants and per slice / per volume: a value that prints as '0' or as an empty line must not
-                # be confused with "key not found" (nothing printed)
+                out.append({'kind': 'merge', 'S': S, 'nv': nv, 'keys': keys, 'sort': rng.random() < 0.7 and dim in (3, None), 'clear': rng.random() < 0.3,
+                            'dim': dim, 'gz': gz, 'perm': rng.sample(range(nv), nv) if rng.random() < 0.5 else list(range(nv)),
+                            'fmt': rng.random() < 0.3})
+            elif r < 0.86:
                 consts = ['EchoTime', 'RepetitionTime', 'Rows', 'Nope', 'ZeroInt', 'ZeroFloat', 'EmptyStr', 'EmptyList', 'FalseVal',
                           'NullVal', 'OneInt', 'ZeroInt', 'EmptyStr', 'ZeroFloat']
-                varying = ['InstanceNumber', 'SliceInts', 'SliceStrs', 'SliceFloats'] + (['VolFloats', 'VolStrs', 'VolInts', 'EchoTime'] if T > 1 else [])
+                varying = ['InstanceNumber', 'SliceInts', 'SliceStrs', 'SliceFloats'] + (['VolFloats', 'VolStrs', 'VolInts', 'EchoTime'] if T > 1 and V == 1 else [])
+                shape = _shape_of(S, T, V)
                 if rng.random() < 0.45:
-                    key, index = rng.choice(consts), rng.choice([None, None, [0, 0, 0] + ([0] if T > 1 else [])])
+                    key, index = rng.choice(consts), rng.choice([None, None, [0] * len(shape)])
                 else:
                     key = rng.choice(varying)
-                    index = [rng.randrange(2), rng.randrange(2), rng.randrange(S)] + ([rng.randrange(T)] if T > 1 else [])
+                    index = [rng.randrange(x) for x in shape]
                     if rng.random() < 0.1:
                         index = None
-                out.append({'kind': 'lookup', 'S': S, 'T': T, 'key': key, 'index': index})
+                out.append({'kind': 'lookup', 'S': S, 'T': T, 'V': V, 'gz': gz, 'key': key, 'index': index})
+            else:
+                table = _class_table(S, T, V)
+                ops = []
+                for j in range(rng.randrange(3, 7)):
+                    q = rng.random()
+                    if q < 0.55:
+                        c, m = rng.choice(table if rng.random() < 0.85 else [(['foo', 'bar'], 1)])
+                        cnt = m if rng.random() < 0.85 else m + 1
+                        ops.append(['inject', c, rng.choice(['K1', 'K2', 'K1', 'Rows']), [str(rng.randrange(0, 50)) for _ in range(cnt)],
+                                    rng.random() < 0.5])
+                    elif q < 0.8:
+                        ops.append(['lookup', rng.choice(['K1', 'K2', 'Nope', 'Rows'])])
+                    elif q < 0.9:
+                        ops.append(['dump-embed'])
+                    else:
+                        ops.append(['dump-remove-embed'])
+                out.append({'kind': 'history', 'S': S, 'T': T, 'V': V, 'gz': gz, 'ops': ops})
         return out
 
     # ------------------------------------------------------------------------------------ run
     @staticmethod
     def run_impl(case):
-        import numpy as np, nibabel as nb
+        return _in_child('nitool', case, 65)
+
+    @staticmethod
+    def _run_case(case, res=None):
         core, cli, nit, extract, dcmmeta = _impl()
-        _case_start()
+        _case_start('nitool/' + case['kind'])
         cwd0 = os.getcwd()
         d = _scratch()
-        before = [list(core.default_key_excl_res), list(core.default_key_incl_res)]
+        before = _hidden_state()
         try:
             os.chdir(d)
-            k = case['kind']
-            if k == 'inject':
-                obs = Nitool._inject(case, dcmmeta)
-            elif k == 'dump-embed':
-                obs = Nitool._dump_embed(case, dcmmeta)
-            elif k == 'split':
-                obs = Nitool._split(case, dcmmeta)
-            elif k == 'merge':
-                obs = Nitool._merge(case, dcmmeta)
-            else:
-                obs = Nitool._lookup(case, dcmmeta)
-            obs['globals_same'] = before == [list(core.default_key_excl_res), list(core.default_key_incl_res)]
+            obs = getattr(Nitool, '_' + case['kind'].replace('-', '_'))(case, dcmmeta, res)
+            obs['globals_same'] = before == _hidden_state()
             return obs
         finally:
             os.chdir(cwd0)
             shutil.rmtree(d, ignore_errors=True)
 
     @staticmethod
-    def _inject(case, dcmmeta):
-        import nibabel as nb
-        _make_nii('in.nii.gz', case['S'], case['T'])
-        os.utime('in.nii.gz', (10 ** 9, 10 ** 9))
-        v0 = _ext_view('in.nii.gz', dcmmeta)
-        s0 = _img_summary(nb.load('in.nii.gz'), dcmmeta)
-        argv = ['inject', 'in.nii.gz'] + case['cls'] + [case['key']] + case['values']
+    def _file(case, stem='in'):
+        gz = case.get('gz', True)
+        return stem + ('.nii.gz' if gz else '.nii'), ({} if gz else {'rows': 96, 'cols': 96})
+
+    @staticmethod
+    def _inject(case, dcmmeta, res):
+        path, px = Nitool._file(case)
+        S, T, V = case['S'], case['T'], case.get('V', 1)
+        table = _class_table(S, T, V)
+        _make_nii(path, S, T, V, **px)
+        os.utime(path, (10 ** 9, 10 ** 9))
+        lib0 = _lib_view(path, dcmmeta)
+        d0 = _class_dicts(_raw_ext(path), table)
+        g0 = _geom(path)
+        argv = ['inject', path] + case['cls'] + [case['key']] + case['values']
         if case['force']:
             argv.insert(1, '-f')
         if case['type'] is not None:
             argv[1:1] = ['-t', case['type']]
-        r = _run_nitool(argv)
-        saved = os.stat('in.nii.gz').st_mtime_ns != 10 ** 18
-        v1 = _ext_view('in.nii.gz', dcmmeta)
-        s1 = _img_summary(nb.load('in.nii.gz'), dcmmeta)
+        r = _run_nitool(argv, res, path)
+        saved = os.stat(path).st_mtime_ns != 10 ** 18
+        g1 = _geom(path)
+        d1 = _class_dicts(_raw_ext(path), table) if not g1.get('unreadable') else {}
+        try:
+            lib1 = _lib_view(path, dcmmeta)
+        except Exception:
+            lib1 = {'keys': []}
         ck = '/'.join(case['cls'])
-        val = v1['dicts'].get(ck, {}).get(case['key'], None) if ck in v1['dicts'] and case['key'] in v1['dicts'][ck] else None
-        others_same = True
-        for c in v0['dicts']:
-            a = {kk: vv for kk, vv in v0['dicts'][c].items() if kk != case['key']}
-            b = {kk: vv for kk, vv in v1['dicts'].get(c, {}).items() if kk != case['key']}
-            if a != b:
-                others_same = False
-        key_elsewhere = [c for c in v1['dicts'] if c != ck and case['key'] in v1['dicts'][c]]
-        key_before = [c for c in v0['dicts'] if case['key'] in v0['dicts'][c]]
-        return dict(r, saved=saved, v0={x: v0[x] for x in ('valid', 'mult', 'keys')}, keys_after=v1['keys'], value_after=val,
-                    has_value=(ck in v1['dicts'] and case['key'] in v1['dicts'][ck]), others_same=others_same,
-                    key_elsewhere=key_elsewhere, key_before=key_before, old_value=(v0['dicts'][key_before[0]][case['key']] if key_before else None),
-                    image_same=all(s0[x] == s1[x] for x in ('shape', 'dtype', 'data', 'affine', 'pixdim')))
+        return dict(r, saved=saved, lib0=lib0, keys_after=lib1['keys'], dicts_before=d0, dicts_after=d1,
+                    has_value=case['key'] in d1.get(ck, {}), value_after=d1.get(ck, {}).get(case['key']),
+                    image_same=g0 == g1, unreadable=g1.get('unreadable'))
 
     @staticmethod
-    def _dump_embed(case, dcmmeta):
-        import nibabel as nb
-        _make_nii('in.nii.gz', case['S'], case['T'])
-        s0 = _img_summary(nb.load('in.nii.gz'), dcmmeta)
-        shutil.copy('in.nii.gz', 'b.nii.gz')
+    def _dump_embed(case, dcmmeta, res):
+        path, px = Nitool._file(case, 'b')
+        S, T, V = case['S'], case['T'], case.get('V', 1)
+        _make_nii(path, S, T, V, embed=not case.get('noext'), **px)
+        e0, g0 = _raw_ext(path), _geom(path)
+        rm = ['-r'] if case['remove'] else []
+        me = ['-m'] if case.get('make_empty') else []
         if case['stdout']:
-            r1 = _run_nitool(['dump'] + (['-r'] if case['remove'] else []) + ['b.nii.gz'])
+            r1 = _run_nitool(['dump'] + rm + me + [path], res, path)
             open('m.json', 'w').write(r1['stdout'])
         else:
-            r1 = _run_nitool(['dump'] + (['-r'] if case['remove'] else []) + ['b.nii.gz', 'm.json'])
-        dumped = open('m.json').read() if os.path.exists('m.json') else None
-        s_mid = _img_summary(nb.load('b.nii.gz'), dcmmeta)
-        r2 = _run_nitool(['embed'] + ([] if case['remove'] else ['-f']) + ['m.json', 'b.nii.gz'])
-        s1 = _img_summary(nb.load('b.nii.gz'), dcmmeta)
-        return {'r1': r1, 'r2': r2, 'dump_is_ext': dumped == (s0['ext'] + '\n'), 'mid_has_ext': s_mid['ext'] is not None,
-                'same_after': s1 == s0, 'diff': [x for x in s0 if s0[x] != s1.get(x)]}
+            r1 = _run_nitool(['dump'] + rm + me + [path, 'm.json'], res, path)
+        try:
+            dumped = json.loads(open('m.json').read())
+        except (OSError, ValueError):
+            dumped = None
+        e_mid, g_mid = (_raw_ext(path), _geom(path))
+        r2 = None
+        if not r1['refused']:
+            r2 = _run_nitool(['embed'] + ([] if (case['remove'] or case.get('noext')) else ['-f']) + ['m.json', path], res, path)
+        e1, g1 = (_raw_ext(path) if not _geom(path).get('unreadable') else None), _geom(path)
+        return {'r1': r1, 'r2': r2, 'ext_before': e0, 'dumped': dumped, 'mid_has_ext': e_mid is not None, 'mid_geom_same': g_mid == g0,
+                'ext_after': e1, 'geom_same': g1 == g0, 'unreadable': g1.get('unreadable') or g_mid.get('unreadable')}
 
     @staticmethod
-    def _split(case, dcmmeta):
+    def _split(case, dcmmeta, res):
         import nibabel as nb
         os.makedirs('sub')
-        _make_nii('sub/in.nii.gz', case['S'], case['T'])
-        r = _run_nitool(['split'] + (['-d', str(case['dim'])] if case['dim'] is not None else []) + ['sub/in.nii.gz'])
-        names = sorted(p for p in _listing(['sub']) if not p.endswith('/in.nii.gz'))
-        got = [_img_summary(nb.load(p), dcmmeta) for p in names]
+        name, px = Nitool._file(case)
+        src = 'sub/' + name
+        S, T, V = case['S'], case['T'], case.get('V', 1)
+        _make_nii(src, S, T, V, **px)
+        argv = ['split'] + (['-d', str(case['dim'])] if case['dim'] is not None else []) + (['-o', case['fmt']] if case.get('fmt') else []) + [src]
+        r = _run_nitool(argv, res, src)
+        names = sorted(p for p in _listing(['sub']) if p != src)
+        got = [_file_summary(p) for p in names]
         try:
             with _quiet():
-                want = [_img_summary(s.nii_img, dcmmeta) for s in dcmmeta.NiftiWrapper(nb.load('sub/in.nii.gz')).split(case['dim'])]
+                want = [_mem_summary(s.nii_img) for s in dcmmeta.NiftiWrapper(nb.load(src, mmap=False)).split(case['dim'])]
             api_raised = None
         except Exception as e:
             want, api_raised = None, type(e).__name__
-        return dict(r, names=names, n_api=None if want is None else len(want), api_raised=api_raised,
-                    equal=None if want is None else (got == want),
-                    diff=None if want is None or got == want else [[x for x in g if g[x] != w.get(x)] for g, w in zip(got, want)])
+        exp_names = None
+        if want is not None:
+            if case.get('fmt'):      # ground truth: the time split of the generated series has EchoTime 2 + 3t
+                exp_names = sorted(case['fmt'] % {'EchoTime': float(2 + 3 * t)} for t in range(T))
+            else:
+                exp_names = ['sub/%03d-%s' % (i, name) for i in range(len(want))]
+        by_name = None
+        if want is not None and len(got) == len(want):
+            order = names if not case.get('fmt') else [case['fmt'] % {'EchoTime': float(2 + 3 * t)} for t in range(T)]
+            by = dict(zip(names, got))
+            by_name = [[x for x in w if by.get(nm, {}).get(x) != w[x]] for nm, w in zip(order, want)]
+        return dict(r, names=names, exp_names=exp_names, n_api=None if want is None else len(want), api_raised=api_raised,
+                    diff=by_name, src_same=_file_summary(src).get('unreadable') is None)
 
     @staticmethod
-    def _merge(case, dcmmeta):
+    def _merge(case, dcmmeta, res):
         import nibabel as nb, numpy as np
-        nv = case['nv']
-        _make_nii('all.nii.gz', case['S'], nv, keys=case['keys'])
+        nv, S, dim = case['nv'], case['S'], case['dim']
+        sdim = 3 if dim is None else dim
+        sfx = '.nii.gz' if case.get('gz', True) else '.nii'
+        # a series with nv parts along the merge dimension
+        if sdim == 2:
+            _make_nii('all' + sfx, nv, 1, 1)
+        elif sdim == 3:
+            _make_nii('all' + sfx, S, nv, 1, keys=case['keys'])
+        else:
+            _make_nii('all' + sfx, S, 2, nv)
         with _quiet():
-            vols = list(dcmmeta.NiftiWrapper(nb.load('all.nii.gz')).split(3))
+            vols = list(dcmmeta.NiftiWrapper(nb.load('all' + sfx, mmap=False)).split(sdim))
         paths = []
         for i, v in enumerate(vols):
-            p = 'v%d.nii.gz' % i
+            p = 'v%d%s' % (i, sfx)
             v.to_filename(p)
             paths.append(p)
-        hashes = [hashlib.sha1(np.ascontiguousarray(np.asanyarray(nb.load(p).dataobj)).tobytes()).hexdigest() for p in paths]
-        argv = ['merge'] + (['-d', str(case['dim'])] if case['dim'] is not None else []) + (['-s', 'AcquisitionNumber'] if case['sort'] else []) \
-            + (['-c'] if case['clear'] else []) + ['out.nii.gz'] + paths
-        r = _run_nitool(argv)
-        order, equal, diff, api_raised = None, None, None, None
+        hashes = [hashlib.sha1(np.ascontiguousarray(np.asanyarray(nb.load(p, mmap=False).dataobj)).tobytes()).hexdigest() for p in paths]
+        given = [paths[i] for i in (case.get('perm') or range(len(paths))) if i < len(paths)]
+        outname = ('m_%(RepetitionTime)s' + sfx) if case.get('fmt') else 'out' + sfx
+        argv = ['merge'] + (['-d', str(dim)] if dim is not None else []) + (['-s', 'AcquisitionNumber'] if case['sort'] else []) \
+            + (['-c'] if case['clear'] else []) + [outname] + given
+        r = _run_nitool(argv, res, None)
+        produced = sorted(p for p in _listing(['.']) if p[2:] not in set(paths) | {'all' + sfx})
+        order, diff, api_raised, want = None, None, None, None
         try:
             with _quiet():
-                seq = [dcmmeta.NiftiWrapper(nb.load(p)) for p in paths]
+                seq = [dcmmeta.NiftiWrapper(nb.load(p, mmap=False)) for p in given]
                 if case['sort']:
                     seq.sort(key=lambda w: w.get_meta('AcquisitionNumber'))
-                want = dcmmeta.NiftiWrapper.from_sequence(seq, case['dim'])
+                want = dcmmeta.NiftiWrapper.from_sequence(seq, dim)
                 if case['clear']:
                     want.meta_ext.clear_slice_meta()
         except Exception as e:
             want, api_raised = None, type(e).__name__
-        if os.path.exists('out.nii.gz') and want is not None:
-            got_img = nb.load('out.nii.gz')
-            data = np.asanyarray(got_img.dataobj)
-            if data.ndim == 4 and data.shape[3] == nv:
-                order = []
-                for t in range(nv):
-                    h = hashlib.sha1(np.ascontiguousarray(data[..., t]).tobytes()).hexdigest()
-                    order.append(hashes.index(h) if h in hashes else -1)
-            g, w = _img_summary(got_img, dcmmeta), _img_summary(want.nii_img, dcmmeta)
-            equal = g == w
-            diff = [x for x in g if g[x] != w[x]]
-        return dict(r, order=order, equal=equal, diff=diff, api_raised=api_raised, wrote=os.path.exists('out.nii.gz'))
+        exp_name = './' + (outname % {'RepetitionTime': 100.0} if case.get('fmt') else outname)
+        if want is not None and exp_name in produced:
+            g = _file_summary(exp_name)
+            w = _mem_summary(want.nii_img)
+            diff = [x for x in w if g.get(x) != w[x]]
+            if not g.get('unreadable'):
+                data = np.asanyarray(nb.load(exp_name, mmap=False).dataobj)
+                if sdim == 3 and data.ndim == 4 and data.shape[3] == len(given):
+                    hg = [hashes[paths.index(q)] for q in given]
+                    order = []
+                    for t in range(len(given)):
+                        h = hashlib.sha1(np.ascontiguousarray(data[..., t]).tobytes()).hexdigest()
+                        order.append(hg.index(h) if h in hg else -1)
+        return dict(r, order=order, diff=diff, api_raised=api_raised, produced=produced, exp_name=exp_name,
+                    given_keys=[case['keys'][paths.index(p)] if sdim == 3 else 0 for p in given])
 
     @staticmethod
-    def _lookup(case, dcmmeta):
+    def _plant(path, S, T, V, dcmmeta):
+        """keys with falsy values (constants, per slice, per volume), put in through the API"""
         import nibabel as nb
-        S, T = case['S'], case['T']
-        _make_nii('in.nii.gz', S, T)
-        # plant keys with falsy values through the API (constants, per slice, per volume)
-        w = dcmmeta.NiftiWrapper(nb.load('in.nii.gz'))
+        w = dcmmeta.NiftiWrapper(nb.load(path, mmap=False))
         e = w.meta_ext
-        gc = e.get_class_dict(('global', 'const'))
-        gc.update({'ZeroInt': 0, 'ZeroFloat': 0.0, 'EmptyStr': '', 'EmptyList': [], 'FalseVal': False, 'NullVal': None, 'OneInt': 1})
-        ns = e.get_multiplicity(('global', 'slices'))
+        e.get_class_dict(('global', 'const')).update({'ZeroInt': 0, 'ZeroFloat': 0.0, 'EmptyStr': '', 'EmptyList': [], 'FalseVal': False,
+                                                        'NullVal': None, 'OneInt': 1})
+        ns = S * T * V
         gs = e.get_class_dict(('global', 'slices'))
-        gs['SliceInts'] = [i % 2 for i in range(ns)]                        # 0, 1, 0, ...
-        gs['SliceStrs'] = ['' if i % 2 == 0 else 's%d' % i for i in range(ns)]
-        gs['SliceFloats'] = [0.0 if i % 3 == 0 else i / 2.0 for i in range(ns)]
-        if T > 1:
+        truth = {'SliceInts': [i % 2 for i in range(ns)], 'SliceStrs': ['' if i % 2 == 0 else 's%d' % i for i in range(ns)],
+                 'SliceFloats': [0.0 if i % 3 == 0 else i / 2.0 for i in range(ns)]}
+        gs.update(truth)
+        if T > 1 and V == 1:
             ts = e.get_class_dict(('time', 'samples'))
-            ts['VolFloats'] = [0.0 if i % 2 == 0 else 1.5 for i in range(T)]
-            ts['VolStrs'] = ['' if i % 2 == 0 else 'v' for i in range(T)]
-            ts['VolInts'] = [0 if i % 2 == 1 else 7 for i in range(T)]
+            tv = {'VolFloats': [0.0 if i % 2 == 0 else 1.5 for i in range(T)], 'VolStrs': ['' if i % 2 == 0 else 'v' for i in range(T)],
+                  'VolInts': [0 if i % 2 == 1 else 7 for i in range(T)]}
+            ts.update(tv)
+            truth.update(tv)
         e.check_valid()
-        w.to_filename('in.nii.gz')
-        argv = ['lookup'] + (['-i', ','.join(str(x) for x in case['index'])] if case['index'] is not None else []) + [case['key'], 'in.nii.gz']
-        r = _run_nitool(argv)
-        api = None
+        w.to_filename(path)
+        return truth
+
+    @staticmethod
+    def _truth_lookup(case, planted):
+        """ground truth for the planted keys (None = not judged from the generator's side: keys of the converted series)"""
+        key, idx = case['key'], case['index']
+        S, T, V = case['S'], case['T'], case.get('V', 1)
+        consts = {'ZeroInt': 0, 'ZeroFloat': 0.0, 'EmptyStr': '', 'EmptyList': [], 'FalseVal': False, 'NullVal': None, 'OneInt': 1, 'Nope': None}
+        if key in consts:
+            return ('known', consts[key])
+        if key in planted:
+            if idx is None:
+                return ('known', None)
+            if key.startswith('Slice'):
+                t = idx[3] if len(idx) > 3 else 0
+                v = idx[4] if len(idx) > 4 else 0
+                return ('known', planted[key][idx[2] + S * (t + T * v)])
+            return ('known', planted[key][idx[3]])
+        return ('unknown', None)
+
+    @staticmethod
+    def _lookup(case, dcmmeta, res):
+        path, px = Nitool._file(case)
+        S, T, V = case['S'], case['T'], case.get('V', 1)
+        _make_nii(path, S, T, V, **px)
+        planted = Nitool._plant(path, S, T, V, dcmmeta)
+        argv = ['lookup'] + (['-i', ','.join(str(x) for x in case['index'])] if case['index'] is not None else []) + [case['key'], path]
+        r = _run_nitool(argv, res, None)
+        api, api_raised, v = None, None, None
         try:
-            v = dcmmeta.NiftiWrapper.from_filename('in.nii.gz').get_meta(case['key'], None if case['index'] is None else tuple(case['index']))
-            # `print(v)` unless v is None: exactly str(v) and a newline -- '0', '0.0', 'False', '[]', and an EMPTY LINE for ''
-            buf = io.StringIO()
-            if v is not None:
-                print(v, file=buf)
-            want = buf.getvalue()
+            v = dcmmeta.NiftiWrapper.from_filename(path).get_meta(case['key'], None if case['index'] is None else tuple(case['index']))
             api = None if v is None else str(v)
-            api_raised = None
         except Exception as ex:
-            want, api_raised = None, type(ex).__name__
-        r['api'] = api
-        r['api_repr'] = None if api_raised else repr(v)
-        return dict(r, want=want, api_raised=api_raised)
+            api_raised = type(ex).__name__
+        how, tv = Nitool._truth_lookup(case, planted)
+        buf = io.StringIO()
+        val = tv if how == 'known' else v
+        if val is not None:
+            print(val, file=buf)            # `print(v)` unless v is None: '0', '0.0', 'False', '[]', an EMPTY LINE for ''
+        return dict(r, api=api, api_repr=None if api_raised else repr(v), api_raised=api_raised, truth=how, truth_repr=repr(tv),
+                    want=None if (how == 'unknown' and api_raised) else buf.getvalue(), api_agrees=(how == 'unknown' or api_raised or _same_value(v, tv)))
+
+    @staticmethod
+    def _history(case, dcmmeta, res):
+        path, px = Nitool._file(case, 'h')
+        S, T, V = case['S'], case['T'], case.get('V', 1)
+        table = _class_table(S, T, V)
+        mult = dict(('/'.join(c), m) for c, m in table)
+        _make_nii(path, S, T, V, **px)
+        g0 = _geom(path)
+        expect = _class_dicts(_raw_ext(path), table)          # ground truth, updated by the harness per the property text
+        steps = []
+        for op in case['ops']:
+            st = {'op': op}
+            if op[0] == 'inject':
+                _, cls, key, values, force = op
+                ck = '/'.join(cls)
+                exists = [c for c in expect if key in expect[c]]
+                ok = ck in mult and len(values) == mult[ck] and (not exists or force)
+                r = _run_nitool(['inject'] + (['-f'] if force else []) + [path] + cls + [key] + values, res, path)
+                if ok:
+                    for c in exists:
+                        del expect[c][key]
+                    expect[ck][key] = _py_convert(values, None)
+                st.update(refused=r['refused'], should=ok)
+            elif op[0] == 'lookup':
+                r = _run_nitool(['lookup', op[1], path], res, None)
+                v = expect['global/const'].get(op[1])
+                buf = io.StringIO()
+                if v is not None:
+                    print(v, file=buf)
+                st.update(refused=r['refused'], stdout=r['stdout'], want=buf.getvalue())
+            else:
+                rm = op[0] == 'dump-remove-embed'
+                r1 = _run_nitool(['dump'] + (['-r'] if rm else []) + [path, 'h.json'], res, path)
+                r2 = _run_nitool(['embed'] + ([] if rm else ['-f']) + ['h.json', path], res, path)
+                st.update(refused=r1['refused'] or r2['refused'])
+            g = _geom(path)
+            st['geom_same'] = g == g0
+            st['unreadable'] = g.get('unreadable')
+            now = _class_dicts(_raw_ext(path), table) if not g.get('unreadable') else None
+            st['ext_as_expected'] = now is not None and all(set(now[c]) == set(expect[c]) and all(_same_value(now[c][k], expect[c][k]) for k in expect[c]) for c in expect)
+            if not st['ext_as_expected'] and now is not None:
+                st['ext_diff'] = [[c, sorted(set(now[c]) ^ set(expect[c])) or [k for k in expect[c] if not _same_value(now[c][k], expect[c][k])]] for c in expect
+                                  if set(now[c]) != set(expect[c]) or any(not _same_value(now[c][k], expect[c][k]) for k in expect[c])][:2]
+            steps.append(st)
+        return {'steps': steps}
 
     # ------------------------------------------------------------------------------------ Coq
     @staticmethod
     def coq_case(case, obs):
+        if 'harness' in obs:
+            raise ValueError('harness: %s' % obs['harness'])
+        if 'died' in obs or 'crash' in obs:
+            return 'NCOracleOnly'
         k = case['kind']
         cl = lambda c: cpair(cstr(c[0]), cstr(c[1]))
         if k == 'inject':
-            if obs.get('raised'):
-                rc = '(Err %s)' % obs['raised']['err']
-            elif isinstance(obs['rc'], int):
-                rc = '(Ok %s)' % cz(obs['rc'])
-            else:
-                raise ValueError('unexpected exit %r' % (obs['rc'],))
             va = 'None'
             if obs['has_value']:
                 try:
@@ -1462,134 +2039,190 @@ class Nitool:
                 except ValueError:
                     va = 'None'
             return ('(NCInject {| j_valid := %s; j_mult := %s; j_keys := %s; j_cls := %s; j_key := %s; j_values := %s; j_type := %s; '
-                    'j_force := %s; j_rc := %s; j_saved := %s; j_keys_after := %s; j_value_after := %s |})') % (
-                clist(cl(c) for c in obs['v0']['valid']), clist(cpair(cl(c), cnat(m)) for c, m in obs['v0']['mult']),
-                clist(cpair(cl(c), clist(cstr(x) for x in ks)) for c, ks in obs['v0']['keys']), cl(case['cls']), cstr(case['key']),
-                clist(cstr(v) for v in case['values']), copt(case['type'], cstr), cbool(case['force']), rc, cbool(obs['saved']),
+                    'j_force := %s; j_refused := %s; j_saved := %s; j_keys_after := %s; j_value_after := %s |})') % (
+                clist(cl(c) for c in obs['lib0']['valid']), clist(cpair(cl(c), cnat(m)) for c, m in obs['lib0']['mult']),
+                clist(cpair(cl(c), clist(cstr(x) for x in ks)) for c, ks in obs['lib0']['keys']), cl(case['cls']), cstr(case['key']),
+                clist(cstr(v) for v in case['values']), copt(case['type'], cstr), cbool(case['force']), cbool(obs['refused']), cbool(obs['saved']),
                 clist(cpair(cl(c), clist(cstr(x) for x in ks)) for c, ks in obs['keys_after']), va)
-        if k == 'split' and case.get('dim') is not None and obs.get('rc') == 0:
-            return '(NCSplitNames %s %s %s)' % (cstr('sub/in.nii.gz'), cnat(len(obs['names'])), clist(cstr(n) for n in obs['names']))
-        if k == 'split' and obs.get('rc') == 0:
-            return '(NCSplitNames %s %s %s)' % (cstr('sub/in.nii.gz'), cnat(len(obs['names'])), clist(cstr(n) for n in obs['names']))
-        if k == 'lookup' and not obs.get('api_raised') and not obs.get('raised') and obs.get('rc') == 0:
+        if k == 'split' and not obs['refused'] and not case.get('fmt'):
+            return '(NCSplitNames %s %s %s)' % (cstr('sub/' + Nitool._file(case)[0]), cnat(len(obs['names'])), clist(cstr(n) for n in obs['names']))
+        if k == 'lookup' and not obs.get('api_raised') and not obs['refused']:
             return '(NCLookup %s %s %s)' % (copt(None if case['index'] is None else ','.join(str(x) for x in case['index']), cstr),
                                             copt(obs['api'], cstr), cstr(obs['stdout']))
-        if k == 'merge' and case['sort'] and obs.get('order') is not None and -1 not in obs['order']:
-            return '(NCMergeOrder %s %s)' % (clist(cz(x) for x in case['keys']), clist(cnat(x) for x in obs['order']))
+        if k == 'merge' and obs.get('order') is not None and -1 not in obs['order']:
+            return '(NCMergeOrder %s %s %s)' % (cbool(bool(case['sort'])), clist(cz(x) for x in obs['given_keys']), clist(cnat(x) for x in obs['order']))
         return 'NCOracleOnly'
 
     # ------------------------------------------------------------------------------------ oracle
     @staticmethod
     def oracle(case, obs):
-        if 'crash' in obs:
-            return 'harness/implementation crashed: %s %s' % (obs.get('crash'), str(obs.get('msg'))[:300])
-        if obs.get('globals_same') is False:
-            return 'a nitool invocation changed the module default regex lists'
+        if 'crash' in obs or 'harness' in obs:
+            return None
         k = case['kind']
+        if 'died' in obs:
+            p = obs.get('progress') or {}
+            return '[nitool/%s/killed] `nitool %s` killed the interpreter (signal %s)%s' % (
+                k, ' '.join(p.get('argv') or []), obs['died'], ' while rewriting the file it had loaded (%s)' % p['file'] if p.get('file') else '')
+        msgs = []
+        if obs.get('globals_same') is False:
+            msgs.append('[nitool/state-leak] a nitool invocation changed module-level state')
         if k == 'inject':
+            S, T, V = case['S'], case['T'], case.get('V', 1)
+            table = _class_table(S, T, V)
             ck = '/'.join(case['cls'])
-            valid = case['cls'] in obs['v0']['valid']
-            mult = dict(('/'.join(c), m) for c, m in obs['v0']['mult']).get(ck)
-            is_new = not obs['key_before']
-            should = valid and len(case['values']) == mult and (is_new or case['force'])
+            mult = dict(('/'.join(c), m) for c, m in table)
+            if [c for c, m in table] != obs['lib0']['valid'] or [[c, m] for c, m in table] != obs['lib0']['mult']:
+                msgs.append('[nitool/inject/table] the library reports classifications %s for an image of shape %s, the format says %s' % (
+                    obs['lib0']['mult'], _shape_of(S, T, V), table))
+            d0, d1 = obs['dicts_before'], obs['dicts_after']
+            key_before = [c for c in d0 if case['key'] in d0[c]]
+            should = ck in mult and len(case['values']) == mult[ck] and (not key_before or case['force'])
             conv_ok, want = True, None
             if should:
                 try:
                     want = _py_convert(case['values'], case['type'])
                 except (ValueError, KeyError):
                     conv_ok = False
-            if not obs['image_same']:
-                return 'inject changed the image data or geometry'
-            if not obs['others_same']:
-                return 'inject changed the value of a key other than %r' % case['key']
-            if not (should and conv_ok):
-                if obs['saved'] or obs['keys_after'] != obs['v0']['keys']:
-                    why = ('classification %s is not valid for this image' % (case['cls'],) if not valid else
-                           '%d values given, multiplicity is %s' % (len(case['values']), mult) if len(case['values']) != mult else
-                           'key exists and --force-overwrite was not given' if should is False else 'the values do not convert to --type')
-                    return 'inject rewrote the file although %s' % why
-                if should is False and obs['rc'] != 1:
-                    return 'inject refused (as it must) but exit status is %r' % (obs['rc'],)
-                return None
-            if obs['raised'] or obs['rc'] != 0:
-                return 'inject with valid classification, %d values (multiplicity %s), key %s%s failed: rc=%r %r' % (
-                    len(case['values']), mult, 'new' if is_new else 'existing', ' (forced)' if case['force'] else '', obs['rc'], obs['raised'])
-            if not obs['saved'] or not obs['has_value']:
-                return 'inject reported success but the key is not in the file'
-            if obs['value_after'] != want or type(obs['value_after']) is not type(want) or \
-                    (isinstance(want, list) and [type(x) for x in want] != [type(x) for x in obs['value_after']]):
-                return 'inject stored %r under %s/%s, the given values are %r' % (obs['value_after'], ck, case['key'], want)
-            if obs['key_elsewhere']:
-                return 'after inject the key is also classified as %s' % obs['key_elsewhere']
-            return None
-        if k == 'dump-embed':
-            if obs['r1']['raised'] or obs['r1']['rc'] != 0:
-                return 'nitool dump failed: %r' % (obs['r1'],)
-            if not obs['dump_is_ext']:
-                return 'nitool dump did not write the JSON of the extension'
-            if case['remove'] == obs['mid_has_ext']:
-                return 'dump %s: extension %s afterwards' % ('-r' if case['remove'] else 'without -r', 'present' if obs['mid_has_ext'] else 'missing')
-            if obs['r2']['raised'] or obs['r2']['rc'] != 0:
-                return 'nitool embed failed: %r' % (obs['r2'],)
-            if not obs['same_after']:
-                return 'dump followed by embed does not reproduce the file (differs in %s)' % obs['diff']
-            return None
-        if k == 'split':
+            if obs.get('unreadable'):
+                msgs.append('[nitool/inject/file-destroyed] after inject the file cannot be read any more (%s)' % obs['unreadable'])
+            elif not obs['image_same']:
+                msgs.append('[nitool/inject/image] inject changed the image data or geometry')
+            else:
+                others = all({kk: vv for kk, vv in d0[c].items() if kk != case['key']} == {kk: vv for kk, vv in d1.get(c, {}).items() if kk != case['key']} for c in d0)
+                if not others:
+                    msgs.append('[nitool/inject/other-keys] inject changed the value of a key other than %r' % case['key'])
+                if not (should and conv_ok):
+                    if obs['saved'] or d1 != d0:
+                        why = ('classification %s is not valid for this image' % (case['cls'],) if ck not in mult else
+                               '%d values given, the classification holds %s' % (len(case['values']), mult[ck]) if len(case['values']) != mult[ck] else
+                               'the key exists and --force-overwrite was not given' if not should else 'the values do not convert to --type')
+                        msgs.append('[nitool/inject/not-refused] inject rewrote the file although %s' % why)
+                elif obs['refused']:
+                    msgs.append('[nitool/inject/refused] inject with a valid classification, %d values (the classification holds %s), key %s%s was refused: rc=%r %r' % (
+                        len(case['values']), mult[ck], 'existing' if key_before else 'new', ' (forced)' if case['force'] else '', obs['rc'], obs['raised']))
+                elif not obs['saved'] or not obs['has_value']:
+                    msgs.append('[nitool/inject/not-stored] inject reported success but the key is not in the file')
+                elif not _same_value(obs['value_after'], want):
+                    msgs.append('[nitool/inject/value] inject stored %r under %s/%s, the given values are %r' % (obs['value_after'], ck, case['key'], want))
+                elif [c for c in d1 if c != ck and case['key'] in d1[c]]:
+                    msgs.append('[nitool/inject/twice] after inject the key is also classified as %s' % [c for c in d1 if c != ck and case['key'] in d1[c]])
+        elif k == 'dump-embed':
+            r1, r2 = obs['r1'], obs['r2']
+            if obs.get('unreadable'):
+                msgs.append('[nitool/dump-embed/file-destroyed] after dump%s / embed the file cannot be read any more (%s)' % (' -r' if case['remove'] else '', obs['unreadable']))
+            elif case.get('noext') and not case.get('make_empty'):
+                if not r1['refused']:
+                    msgs.append('[nitool/dump/no-extension] dump of a file without extension (no --make-empty) was not refused')
+            elif r1['refused']:
+                msgs.append('[nitool/dump/refused] nitool dump failed: rc=%r %r' % (r1['rc'], r1['raised']))
+            else:
+                if not case.get('noext') and obs['dumped'] != obs['ext_before']:
+                    msgs.append('[nitool/dump/content] nitool dump did not write the JSON of the extension')
+                if case.get('noext') and not (isinstance(obs['dumped'], dict) and not _ext_keys(obs['dumped'])):
+                    msgs.append('[nitool/dump/make-empty] dump --make-empty of a file without extension did not write an empty extension')
+                if not obs['mid_geom_same']:
+                    msgs.append('[nitool/dump/image] dump changed the image')
+                if not case.get('noext') and case['remove'] == obs['mid_has_ext']:
+                    msgs.append('[nitool/dump/remove] dump %s: extension %s afterwards' % ('-r' if case['remove'] else 'without -r', 'present' if obs['mid_has_ext'] else 'missing'))
+                if r2 is None or r2['refused']:
+                    msgs.append('[nitool/embed/refused] nitool embed failed: %r' % (r2,))
+                elif obs['ext_after'] != obs['dumped'] or not obs['geom_same']:
+                    msgs.append('[nitool/dump-embed/roundtrip] dump followed by embed does not reproduce the %s' % ('extension' if obs['geom_same'] else 'image'))
+        elif k == 'split':
             if obs['api_raised']:
-                return None if (obs['raised'] and obs['raised']['cls'] == obs['api_raised']) else \
-                    'API split raises %s, nitool split ended with rc=%r raised=%r' % (obs['api_raised'], obs['rc'], obs['raised'])
-            if obs['raised'] or obs['rc'] != 0:
-                return 'nitool split failed (%r %r) although the API split works' % (obs['rc'], obs['raised'])
-            if len(obs['names']) != obs['n_api']:
-                return 'nitool split wrote %d files, the API split yields %d parts' % (len(obs['names']), obs['n_api'])
-            if not obs['equal']:
-                return 'nitool split files differ from the API split results in %s' % (obs['diff'],)
-            return None
-        if k == 'merge':
+                if not obs['refused']:
+                    msgs.append('[nitool/split/not-refused] the API split raises %s, nitool split ended with rc=%r' % (obs['api_raised'], obs['rc']))
+            elif obs['refused']:
+                msgs.append('[nitool/split/refused] nitool split failed (%r %r) although the API split works' % (obs['rc'], obs['raised']))
+            elif len(obs['names']) != obs['n_api']:
+                msgs.append('[nitool/split/count] nitool split wrote %d files, the API split yields %d parts' % (len(obs['names']), obs['n_api']))
+            elif sorted(obs['names']) != sorted(obs['exp_names']):
+                msgs.append('[nitool/split/names] nitool split wrote %s, expected %s' % (obs['names'], obs['exp_names']))
+            elif obs['diff'] is None or any(obs['diff']):
+                msgs.append('[nitool/split/content] nitool split files differ from the API split results in %s' % (obs['diff'],))
+            elif not obs['src_same']:
+                msgs.append('[nitool/split/source] the source file is unreadable after the split')
+        elif k == 'merge':
             if obs['api_raised']:
-                return None if (obs['raised'] and obs['raised']['cls'] == obs['api_raised'] and not obs['wrote']) else \
-                    'NiftiWrapper.from_sequence raises %s, nitool merge ended with rc=%r raised=%r' % (obs['api_raised'], obs['rc'], obs['raised'])
-            if obs['raised'] or obs['rc'] != 0:
-                return 'nitool merge failed: rc=%r %r' % (obs['rc'], obs['raised'])
-            if not obs['equal']:
-                return 'nitool merge output differs from NiftiWrapper.from_sequence in %s' % (obs['diff'],)
-            return None
-        if k == 'lookup':
-            if obs['api_raised']:
-                return None if obs['raised'] else 'get_meta raises %s but nitool lookup printed %r' % (obs['api_raised'], obs['stdout'])
-            if obs['raised'] or obs['rc'] != 0:
-                return 'nitool lookup failed: %r %r' % (obs['rc'], obs['raised'])
-            if obs['stdout'] != obs['want']:
-                return 'nitool lookup %s%s printed %r, but get_meta returns %s, i.e. print() gives %r' % (
+                if not obs['refused'] or obs['exp_name'] in obs['produced']:
+                    msgs.append('[nitool/merge/not-refused] NiftiWrapper.from_sequence raises %s, nitool merge ended with rc=%r and wrote %s' % (
+                        obs['api_raised'], obs['rc'], obs['produced']))
+            elif obs['refused']:
+                msgs.append('[nitool/merge/refused] nitool merge failed: rc=%r %r' % (obs['rc'], obs['raised']))
+            elif obs['produced'] != [obs['exp_name']]:
+                msgs.append('[nitool/merge/name] nitool merge wrote %s, expected %s' % (obs['produced'], obs['exp_name']))
+            elif obs['diff']:
+                msgs.append('[nitool/merge/content] nitool merge output differs from NiftiWrapper.from_sequence in %s' % (obs['diff'],))
+        elif k == 'lookup':
+            if not obs['api_agrees']:
+                msgs.append('[nitool/lookup/api] get_meta returns %s for a planted key whose value is %s' % (obs['api_repr'], obs['truth_repr']))
+            if obs['want'] is None:
+                if not obs['refused']:
+                    msgs.append('[nitool/lookup/not-refused] get_meta raises %s but nitool lookup printed %r' % (obs['api_raised'], obs['stdout']))
+            elif obs['refused']:
+                msgs.append('[nitool/lookup/refused] nitool lookup failed: %r %r' % (obs['rc'], obs['raised']))
+            elif obs['stdout'] != obs['want']:
+                msgs.append('[nitool/lookup/output] nitool lookup %s%s printed %r, but the value is %s, i.e. print() gives %r' % (
                     case['key'], '' if case['index'] is None else ' -i ' + ','.join(str(x) for x in case['index']),
-                    obs['stdout'], obs['api_repr'], obs['want'])
-            return None
-        return None
+                    obs['stdout'], obs['truth_repr'] if obs['truth'] == 'known' else obs['api_repr'], obs['want']))
+        elif k == 'history':
+            for i, st in enumerate(obs['steps']):
+                what = 'step %d (%s)' % (i + 1, ' '.join(str(x) for x in st['op']))
+                if st.get('unreadable'):
+                    msgs.append('[nitool/history/file-destroyed] after %s the file cannot be read any more (%s)' % (what, st['unreadable']))
+                    break
+                if not st['geom_same']:
+                    msgs.append('[nitool/history/image] %s changed the image' % what)
+                if st['op'][0] == 'inject' and st['should'] == st['refused']:
+                    msgs.append('[nitool/history/inject] %s was %s' % (what, 'refused although valid' if st['should'] else 'accepted although it must be refused'))
+                if st['op'][0] == 'lookup' and (st['refused'] or st['stdout'] != st['want']):
+                    msgs.append('[nitool/history/lookup] %s printed %r, the value injected earlier prints as %r' % (what, st.get('stdout'), st['want']))
+                if st['op'][0].startswith('dump') and st['refused']:
+                    msgs.append('[nitool/history/dump-embed] %s failed' % what)
+                if not st['ext_as_expected']:
+                    msgs.append('[nitool/history/extension] after %s the extension is not what the commands so far must have produced: %s' % (what, st.get('ext_diff')))
+                if msgs:
+                    break
+        return _tagged(msgs)
 
     @staticmethod
     def signature(case, obs, msg):
-        return 'nitool-' + case['kind']
+        return _tag_of(msg)
 
     @staticmethod
     def nontrivial(case, obs):
-        return case['kind'] == 'inject' or (case['kind'] == 'merge' and case['sort']) or \
-            (case['kind'] == 'lookup' and obs.get('api_repr') in ('0', '0.0', "''", '[]', 'False'))
+        k = case['kind']
+        rewrites_raw = not case.get('gz', True) and k in ('inject', 'dump-embed', 'history')
+        return k in ('inject', 'history') or rewrites_raw or (k == 'merge' and case['sort']) or \
+            (k == 'lookup' and obs.get('truth_repr') in ('0', '0.0', "''", '[]', 'False'))
 
     @staticmethod
     def shrink(case):
-        if case['kind'] == 'inject':
-            for f in ('S', 'T'):
-                if case[f] > 1:
+        if case['kind'] == 'history':
+            for i in range(len(case['ops'])):
+                if len(case['ops']) > 1:
                     c = dict(case)
-                    c[f] = case[f] - 1
+                    c['ops'] = case['ops'][:i] + case['ops'][i + 1:]
                     yield c
+        for f in ('S', 'T', 'V'):
+            if case.get(f, 1) > 1 and case['kind'] in ('inject', 'dump-embed', 'history'):
+                c = dict(case)
+                c[f] = case[f] - 1
+                if case['kind'] == 'inject':
+                    continue         # the value count is tied to the shape
+                yield c
 
 
 PARTS = [Names, State, Nitool]
 
 if __name__ == '__main__':
+    _repo = os.environ.get('DCMSTACK_REPO', '/repo')
+    sys.path.insert(0, os.path.join(_repo, 'src'))
+    warnings.simplefilter('ignore')
     if len(sys.argv) == 4 and sys.argv[1] == 'fresh':
         _fresh_main(sys.argv[2], sys.argv[3])
+    elif len(sys.argv) == 6 and sys.argv[1] == 'case':
+        _child_main(sys.argv[2], sys.argv[3], sys.argv[4], sys.argv[5])
 
 
 # source tie (integrator): make_key_regex_filter and its inner function are TRANSLATED from the Python AST on every run
